@@ -12,2336 +12,1272 @@ Definition show_fres (r : fres) : string :=
   end.
 Definition check (rs : list rune) : string := digest (show_fres (format_res rs)).
 Definition full (rs : list rune) : string := show_fres (format_res rs).
-Eval vm_compute in ("<<<M1310>>>" ++ check (runes_of_ascii "
-packet Packet	{ char[7
-] rootA @lengthOf(// `tick` ""quote"" 'q'
-msg_type // trailing space 
-)`tab	here`
-, @lengthOf( msg_type
-)
-    falsey Header `tab	here` , match u8x as options1
-{ [ 42, ""1"", ""{,}"" ]: BodyLength , [ 1
-, // c
-""CRC32"" , 0 ,
-    007] : u	[// " ++ [27880; 37322]%N ++ runes_of_ascii "
-"""" ,
-// " ++ [27880; 37322]%N ++ runes_of_ascii "
-// @lengthOf(
-""a\\""
-// " ++ [128512]%N ++ runes_of_ascii " emoji
-// a // b
-,
-""" ++ [233]%N ++ runes_of_ascii "t" ++ [233]%N ++ runes_of_ascii """ ,7 ,
-""abc"",  """", 10 ,  ""abc""]
-    : metadata
-    , ""1"" :x_y_z
-    , ""x y"" :Packet }
-    ,
-lengthOf {// trailing space 
-match
-repeatCount as
-Packet
-{007 : Z9_ ,[ 65535
-, 65535 ] :msg_type
-,""{,}""  : tag ,
-}, repeat x
-msg_type, f32 Logon , } ,
-zchar[ 0
-]
-    //x
-    As
-    ,
-@tag(
-    42 //	t
-)@calculatedFrom(
-""\n"") f64 u128 @calculatedFrom( """ ++ [28040; 24687]%N ++ runes_of_ascii """ ) ,rootA ,
-    chars
-    u128
-, zchar {i64//	t
-i64_ ,
-    int32 i64_ @calculatedFrom(
-    ""// no comment""
-) ,
-    falsey	`doc`  ,	}
-, @leftPad ( '0' ) char packetx  @calculatedFrom( ""\n"" ) // packet A { u8 x, }
-`say ""hi""` , }
-packet roots { @calculatedFrom( ""a\\""
-    ) chars @calculatedFrom(
-    ""\n"" )`a\` ,
-    @calculatedFrom( ""CRC32"" )
-char[ // `tick` ""quote"" 'q'
-65535
-]roots
-,	@tag( 7 )  Logon u8x `{ , }`,match Foo
-    as // " ++ [128512]%N ++ runes_of_ascii " emoji
-Logon  {
-    ""`tick`""// a // b
-: uint8x,
-    """"
-    : leftPad /// triple
-, 3 :
-    leftPad ,
-1 : options1, } ,@lengthOf(uint8x
-    ) @leftPad ( '\x00' )
-    @rightPad	(
-    )
-u128
-``,
-rootA { //x
-match len as
-    float { 42
-    : trueish
-    , ""`tick`"" :Packet
-//x
-// @lengthOf(
-, 0123456789// a // b
-:
-    //
-    As
-, ""CRC32""
-: Header,
-} ,
-repeat string Z9_
-    `say ""hi""` , } , //	t
-@rightPad (
-' ') @lengthOf( repeatCount )i32 _x
-    `
-` , match
-    // a // b
-    Header
-as crc {	007 :	Z9_[ 4294967296
-    ,
-4294967296
-    ] : crc ,
-    10
-    :A
-,  [
-4294967296 , 3 ,
-7	, 42, 1
-    ,  7] : _x ,1 : uint8x
-}
-    , i8i8{ stringy
-@lengthOf( _x
-) `
-` ,
-    } ,
-    } packet repeatCount{
-@tag(	0)@calculatedFrom(""a\\"" )repeat
-    u32 T`
-`,matchKey pack, // `tick` ""quote"" 'q'
-options1 {// trailing space 
-match asx as
-o {
-    ""{,}"" : lengthOf,""a	b"" : lengthOf,10  :
-    calculatedFrom } ,
-    // a // b
-    i8i8 ,Pad@calculatedFrom( // @lengthOf(
-""{,}""
-    ) `// not a comment`  ,},
-    @tag(
-0123456789 ) // " ++ [27880; 37322]%N ++ runes_of_ascii "
-repeat int , uint32 asx	`a\` , } root
-    packet trueish {
-zchar[ 7 ] i64_ , } packet chars /// triple
-{ @rightPad(
-) //	t
-repeat char[255] lengthOf
-`line1
-line2`	, }
-")).
-Eval vm_compute in ("<<<M956>>>" ++ check (runes_of_ascii "packet o { crc
-{ string leftPad
-@calculatedFrom(
-""\n"" ) /// triple
-`it's` , uint16
-x_y_z ,Logon,
-    string crc
-    @lengthOf( crc // a // b
-) ,} ,
-    @calculatedFrom( //x
-"""" ) u64
-matchKey `` , match  leftPad as len {00
-: //x
-charz, }
-    , @tag(
-007 ) @tag( 65535 )
-// a // b
-//	t
-repeat
-// packet A { u8 x, }
-//x
-stringy crc, @lengthOf(
-f32a)match tag  as leftPad{ ""1""
-:// " ++ [128512]%N ++ runes_of_ascii " emoji
-_x
-    ,
-// trailing space 
-//x
-} , roots { tag
-    , float64 body , // packet A { u8 x, }
-f64 As
-@lengthOf( // trailing space 
-tag)
-`line1
-line2`,
-} , i64_ @calculatedFrom(
-    // trailing space 
-    ""x y"" // `tick` ""quote"" 'q'
-) , // " ++ [128512]%N ++ runes_of_ascii " emoji
-Packet @calculatedFrom(
-""\n""), @lengthOf(
-    BodyLength)
-char[ 42
-    // a // b
-    ]int @lengthOf( lengthOf ) `say ""hi""` ,
-} MetaData u{ f64 msg_type , uint8
-As `say ""hi""`, leftPad
-packetx
-, int32 As // " ++ [27880; 37322]%N ++ runes_of_ascii "
-`tab	here`,	i64 trueish	, uint16
-    calculatedFrom ,} packet
-f32a{ roots x_y_z , match body as  f32a
-// @lengthOf(
-//	t
-{ [ 255, 10
-]
-// packet A { u8 x, }
-// `tick` ""quote"" 'q'
-: BodyLength , ""// no comment""
-    :
-packetx
-    , [ ""{,}"" , 65535 ,
-4294967296
-, 255
-, 7
-, //x
-""{,}"" // a // b
-,"""" ,0 ]
-: uint8x 255 : trueish , 7 : u128
-    ,0123456789 :
-    asx , } , // " ++ [128512]%N ++ runes_of_ascii " emoji
-match
-    //	t
-    A as  o {  0
-:
-    trueish // `tick` ""quote"" 'q'
-,""1""
-: i8i8 , 42 : Z9_ ,
-    }
-    , options1  , @tag(	0123456789 )repeat
-    /// triple
-    zchar { Foo
-    @lengthOf( float), /// triple
-}// c
-, match msg_type as u{// packet A { u8 x, }
-0123456789
-:
-    repeatCount,
-    } , @calculatedFrom( ""it's"" )i64_ @lengthOf( x_y_z  )
-, char[  00
-    ]Packet `" ++ [28040; 24687; 31867; 22411]%N ++ runes_of_ascii "` ,u16 // @lengthOf(
-lengthOf `a\` ,
-@calculatedFrom( ""\" ++ [233]%N ++ runes_of_ascii """) i64_ int , } packet uint8x{ string Header @lengthOf(matchKey )	`" ++ [28040; 24687; 31867; 22411]%N ++ runes_of_ascii "`
-,}
-    packet
-crc {
-// " ++ [128512]%N ++ runes_of_ascii " emoji
-// `tick` ""quote"" 'q'
-}
-")).
-Eval vm_compute in ("<<<M156>>>" ++ check (runes_of_ascii "packet  zchar
-    { char[]  string_ ,
-    // @lengthOf(
-    msg_type , match
-    roots // " ++ [27880; 37322]%N ++ runes_of_ascii "
-as metadata { 3: Logon
-, [""a\\"",""1"" , 3 ,
-00
-    , ""a\\"" ,7, 65535 , 3 ]
-    :x_y_z
-    , 0123456789 : o , ""\" ++ [233]%N ++ runes_of_ascii """ : x ""CRC32"" :
-Foo,
-    }, char Header`u8 x,` ,
-    } //	t
-options	{
-    } packet
-    //	t
-    As{zchar[
-    // @lengthOf(
-    10	] roots ,
-    char[7 ]
-calculatedFrom //
-@lengthOf( body ), char stringy	@lengthOf(metadata /// triple
-) ,
-Pad // trailing space 
-u128 , @calculatedFrom( ""it's"") Z9_ ,  match
-falsey	as /// triple
-MetaDataX
-    { 4294967296 : float,//x
-3 :
-    Pad 1
-:T,} /// triple
-,
-    @tag(
-3 ) char[]
-A @calculatedFrom( ""it's""
-) ,  o tag ,
-@lengthOf( x // packet A { u8 x, }
-) zchar[ 4294967296
-    ]
-    rootA // @lengthOf(
-`
-` , } root packet Logon {	repeat _x {leftPad  `crlf
-line` ,
-}
-    , repeat i8 Packet  , MetaDataX`// not a comment`// " ++ [27880; 37322]%N ++ runes_of_ascii "
-, asx`two words` ,
-repeat lengthOf tag , @calculatedFrom( // `tick` ""quote"" 'q'
-""CRC32"" ) // @lengthOf(
-match repeatCount// packet A { u8 x, }
-as
-BodyLength { """ ++ [128512]%N ++ runes_of_ascii """ : len
-[
-    255
-, ""a\\"", 0123456789 , ""CRC32"", // " ++ [128512]%N ++ runes_of_ascii " emoji
-7, 42
-    // a // b
-    ]
-: repeatCount
-,
-},
-i64_ msg_type `crlf
-line` , }
-packet repeatCount{
-    @calculatedFrom(
-""a\""b"" )
-    match
-a1 as
-    matchKey// packet A { u8 x, }
-{00 : options1,
-    4294967296
-    : x_y_z , [3 ,
-""a	b"" ,0123456789
-] : i64_ ,
-0 : leftPad ,""`tick`"" :int [""" ++ [28040; 24687]%N ++ runes_of_ascii """ // @lengthOf(
-]
-// trailing space 
-/// triple
-: Z9_, }
-    , }
-")).
-Eval vm_compute in ("<<<M1271>>>" ++ check (runes_of_ascii "//	t
-root	packet T { i8 //
-roots, @lengthOf( Pad
-    )
-    @calculatedFrom( // @lengthOf(
-""a	b"") @rightPad ('0' )
-float @calculatedFrom( // " ++ [128512]%N ++ runes_of_ascii " emoji
-""" ++ [28040; 24687]%N ++ runes_of_ascii """//	t
-) `{ , }` ,	@lengthOf(	roots )
-repeat
-    tag {match
-i8i8
-    as packetx{
-// a // b
-/// triple
-[""// no comment"" ] //x
-: // " ++ [128512]%N ++ runes_of_ascii " emoji
-packetx ,""\" ++ [233]%N ++ runes_of_ascii """  :  i8i8 ,""a\\"" : //x
-Packet
-    ,
-    // packet A { u8 x, }
-    00
-/// triple
-// @lengthOf(
-: a1 ,
-    ""1"" :
-Foo
-// a // b
-// packet A { u8 x, }
-, ""\" ++ [233]%N ++ runes_of_ascii """ :	rootA, }//
-,
-    uint8x
-matchKey // " ++ [27880; 37322]%N ++ runes_of_ascii "
-`two words`
-,
-char[ 0123456789 ]  i8i8, }	,  @lengthOf( calculatedFrom
-    //x
-    )
-Foo a1 , @lengthOf( pack ) zchar[ 3  ]
-trueish , } root packet o { /// triple
-}	root packet // " ++ [128512]%N ++ runes_of_ascii " emoji
-tag // `tick` ""quote"" 'q'
-{// c
-@lengthOf(A	)
-uint16 i64_
-    `it's`
-    , // a // b
-repeat roots{
-string stringy
-    ,
-    match _x as int { 7
-:// packet A { u8 x, }
-leftPad , 65535  :lengthOf,
-7 : Foo , ""a\\""
-    //	t
-    : float , 255
-:
-    leftPad
-    007 :u128 ,} ,MetaDataX
-@lengthOf(
-leftPad ) , lengthOf @calculatedFrom( ""`tick`"" )
-,}
-, @rightPad
-() @lengthOf( f32a )	zchar[ 00 ]  T // packet A { u8 x, }
-@calculatedFrom(
-""a\""b"" ) ,  repeat  Pad{ zchar[ 0 ]
-msg_type`say ""hi""`// " ++ [27880; 37322]%N ++ runes_of_ascii "
-,} , u64
-    string_ @lengthOf(
-    // packet A { u8 x, }
-    T	)  `line1
-line2`
-    ,
-    // packet A { u8 x, }
-    }
-")).
-Eval vm_compute in ("<<<M4352>>>" ++ check (runes_of_ascii "packet BodyLength {
-    match As as x {
-        [""a	b"", ""it's"", 0] : float,
-        42 : u128,
-        ""a\\"" : BodyLength,
-        0 : Packet,
-        //	t
-        //
-        ""\" ++ [233]%N ++ runes_of_ascii """ : roots,
-        ""\n"" : string_,
-    },
-    msg_type {
-        char[4294967296] options1,
-    },
-    i8i8 {
-        i64_ {
-            match A as zchar {
-                [
-                    65535, """ ++ [128512]%N ++ runes_of_ascii """, ""`tick`"", ""x y"", ""a\""b"",
-                    0, """ ++ [128512]%N ++ runes_of_ascii """, 42
-                ] : float,
-                ""a	b"" : Pad,
-                007 : repeatCount,
-                // " ++ [128512]%N ++ runes_of_ascii " emoji
-            },
-            //
-            uint64 Z9_ `" ++ [233]%N ++ runes_of_ascii "`,
-            crc,
-        },/// triple
-        repeat char[255] uint8x,
-        uint32 pack @calculatedFrom(""{,}""),
-    },
-    @calculatedFrom(""a	b"")
-    tag @lengthOf(Packet) `" ++ [233]%N ++ runes_of_ascii "`,
-}
-
-root packet lengthOf {
-    i32 x,
-    match i64_ as Logon {
-        3 : rootA,
-        [4294967296] : Packet,
-        [""a	b"", ""{,}""] : calculatedFrom,
-        [
-            """ ++ [28040; 24687]%N ++ runes_of_ascii """, 0123456789, ""a	b"", 42, 255,
-            ""\" ++ [233]%N ++ runes_of_ascii """
-        ] : msg_type,
-    },
-    @lengthOf(Header)
-    repeat float {
-        string asx,
-    },
-    match string_ as u {
-        """ ++ [233]%N ++ runes_of_ascii "t" ++ [233]%N ++ runes_of_ascii """ : uint8x,
-    },
-}
-
-packet _x {
-    char[] _x ``,
-}")).
-Eval vm_compute in ("<<<M929>>>" ++ check (runes_of_ascii "packet	string_ // packet A { u8 x, }
-{ @lengthOf( x_y_z// " ++ [128512]%N ++ runes_of_ascii " emoji
-) u8x // @lengthOf(
-@lengthOf( MetaDataX
-) , match u128 as calculatedFrom
-    { ""// no comment"" :
-    Foo } ,@tag(
-255	)f32a body , f64 i64_
-`two words`	, @tag( 7  ) @leftPad (
-)
-// c
-// a // b
-@calculatedFrom( """ ++ [233]%N ++ runes_of_ascii "t" ++ [233]%N ++ runes_of_ascii """ ) uint16 u @lengthOf( i64_	) `tab	here` , @lengthOf( options1 )
-    roots {
-string
-    x@calculatedFrom( ""1""	)
-,
-len
-`say ""hi""` ,
-    rootA @lengthOf( crc )
-    //	t
-    , i64_ @lengthOf( Logon )
-    // trailing space 
-    `doc` , }
-//
-//
-, Packet @calculatedFrom( ""abc"" )
-,	@tag( 7
-) @lengthOf( crc )match crc  as Z9_{42
-    : u128 10: Packet
-    ,
-    ""packet"" : repeatCount[ """ ++ [128512]%N ++ runes_of_ascii """
-, ""abc""// " ++ [27880; 37322]%N ++ runes_of_ascii "
-] : u8x[
-    ""a\""b"" /// triple
-, 42
-]:  rootA
-,
-[ 007
-, ""1"" ,
-    //	t
-    """ ++ [233]%N ++ runes_of_ascii "t" ++ [233]%N ++ runes_of_ascii """ ] : chars
-    ,
-    }
-    , }	root  packet	u {
-    @calculatedFrom( ""CRC32"") _x
-@calculatedFrom(""\" ++ [233]%N ++ runes_of_ascii """), calculatedFrom lengthOf  ,@rightPad
-    (	)uint32 zchar
-@calculatedFrom( """ ++ [233]%N ++ runes_of_ascii "t" ++ [233]%N ++ runes_of_ascii """) , A,
-    } root packet int{
-// `tick` ""quote"" 'q'
-// `tick` ""quote"" 'q'
-char stringy `a\` , // trailing space 
-}
-    options {Z9_//	t
-= ""abc"";crc = ' '
-; matchKey
-= 00
-    ;}
-")).
-Eval vm_compute in ("<<<M739>>>" ++ check (runes_of_ascii "MetaData	roots {
-//
-// " ++ [27880; 37322]%N ++ runes_of_ascii "
-char[ //x
-00 ]
-    i8i8 // @lengthOf(
-,
-uint32
-    metadata
-`tab	here`// a // b
-, } options  {
-Header
-/// triple
-// a // b
-=
-    true metadata
-=
-    false Logon //x
-=	42 ; T =
-    // c
-    '\x00'Header
-    =// packet A { u8 x, }
-""\" ++ [233]%N ++ runes_of_ascii """
-} root // trailing space 
-packet // c
-uint8x
-    {char[]// @lengthOf(
-A`" ++ [233]%N ++ runes_of_ascii "`
-    ,@tag( 65535
-    ) uint32 i8i8 ,
-@rightPad( '0'
-    ) zchar[
-// c
-// " ++ [27880; 37322]%N ++ runes_of_ascii "
-0123456789 ]leftPad ,float32 leftPad , @tag(
-// a // b
-// `tick` ""quote"" 'q'
-42) @leftPad
-(
-)
-    /// triple
-    @tag( 0
-) string
-    f32a, @tag( 3
-) char[
-42]
-MetaDataX ,string repeatCount @lengthOf( Foo)`tab	here` ,	@lengthOf(A)repeat roots { repeat len stringy`it's` ,A { zchar[ 42
-] u128  @calculatedFrom( ""CRC32"" ) , } , char[]
-u128 , // " ++ [128512]%N ++ runes_of_ascii " emoji
-}  , @lengthOf(Z9_) u ,
-// c
-// " ++ [128512]%N ++ runes_of_ascii " emoji
-}	MetaData
-/// triple
-//
-len { float64 u8x ,
-char[]
-    //
-    Header , char[ 65535 ] chars`{ , }` ,
-}MetaData
-Pad {
-roots
-a1 , i64 // `tick` ""quote"" 'q'
-u128
-    ,
-    char[  255 ]	rootA , u16	packetx, i32 MetaDataX , u8 stringy
-    , }
-
-")).
-Eval vm_compute in ("<<<M694>>>" ++ check (runes_of_ascii "packet Logon { @leftPad('0' )
-    @calculatedFrom(	""CRC32"" )
-match x_y_z as calculatedFrom
-    {[
-// trailing space 
-// " ++ [128512]%N ++ runes_of_ascii " emoji
-65535 ,
-10 ]
-:asx 0 :	BodyLength
-,}
-//
-// a // b
-, @lengthOf(	metadata
-    )int16 leftPad , match charz
-as i8i8 { [
-    65535// a // b
-] :
-    repeatCount , ""CRC32""  : Packet
-    ,
-""a\""b""
-: Z9_ , 00 :
-    falsey , 7 :falsey ,
-}
-, // " ++ [27880; 37322]%N ++ runes_of_ascii "
-@lengthOf( body  )
-i32 i8i8
-`two words`,
-    @calculatedFrom( ""`tick`"") body
-    { zchar[ 0 ]BodyLength `doc`
-    ,  u
-`
-` , } ,@tag( 0123456789 ) @leftPad ( '\x00'  )@calculatedFrom(""a	b"" )
-    match As as x_y_z	{ """ ++ [128512]%N ++ runes_of_ascii """ :
-i64_, 0123456789:
-Foo
-,
-65535  :matchKey , 65535 :lengthOf 4294967296 // a // b
-:
-    f32a
-, },
-zchar[
-0] string_ @lengthOf( packetx ) `" ++ [233]%N ++ runes_of_ascii "`
-,@calculatedFrom( ""x y"" )
-    BodyLength { char[1 ] int,
+Eval vm_compute in ("<<<M32>>>" ++ check (runes_of_ascii "packet Logon{
 f32a
-    , repeat Pad	tag `say ""hi""` ,  } ,
-    //x
-    zchar[
-    // `tick` ""quote"" 'q'
-    0 ]
-    Foo
+// " ++ [27880; 37322]%N ++ runes_of_ascii "
+// " ++ [128512]%N ++ runes_of_ascii " emoji
+@lengthOf(
+x ) `u8 x,` ,
 @calculatedFrom(
-""// no comment""
-) ,
-@tag( 00 ) u16 roots `it's`
-,	}
-root packet roots
-{
-    }
-")).
-Eval vm_compute in ("<<<M3971>>>" ++ check (runes_of_ascii "MetaData o {
-    char[255] BodyLength,
-}
-
-packet crc {
-    @tag(7)
-    calculatedFrom @lengthOf(Header),
-    len {
-        float {
-            i32 T,
-            stringy string_,
-            char[65535] Packet @lengthOf(a1) ``,
-            falsey {
-                u16 Logon `{ , }`,
-            },
-        },
-        repeat falsey,
-        repeat u8 Logon,
-    },
-    zchar[65535] lengthOf @lengthOf(asx) `line1
-    line2`,
-    @rightPad('0')
-    int16 f32a,
-    @rightPad('\x00')
-    char[] len `" ++ [28040; 24687; 31867; 22411]%N ++ runes_of_ascii "`,
-    match string_ as string_ {
-        [""a\\"", 10, 007, 0123456789] : As,
-        [""`tick`""] : metadata,
-        ""\n"" : falsey,
-        // `tick` ""quote"" 'q'
-        [3, """ ++ [233]%N ++ runes_of_ascii "t" ++ [233]%N ++ runes_of_ascii """, ""CRC32""] : lengthOf,
-        00 : x_y_z,
-    },
-    packetx {
-        repeat a1 `it's`,
-        stringy `{ , }`,
-        match T as MetaDataX {
-            ""CRC32"" : lengthOf,
-        },
-    },
-}
-
-MetaData tag {
-    //x
-}
-
-packet Z9_ {
-    i16 rootA `
-    `,//	t
-}")).
-Eval vm_compute in ("<<<M583>>>" ++ check (runes_of_ascii "root packet crc  { repeat zchar[ 3
-    // trailing space 
-    ] Header`u8 x,` ,  @leftPad( ' ' )
-char[]
-    string_ `say ""hi""` ,
-    @tag(
-4294967296) repeat  f32a {
-    MetaDataX { repeat u f32a
-    // trailing space 
-    ,  }
-,
-    } , char[ 3 ]	repeatCount //x
-`it's`,	@tag( 255) Packet `u8 x,`
-, @rightPad
-    ( // a // b
-) int32	i64_ `` ,@tag( 4294967296)i8
-    o`{ , }`
-    ,
-    @tag(4294967296 ) @calculatedFrom(""a\""b""
-) char[] trueish ,
-@lengthOf(u8x )i8i8
-    { metadata zchar ,
-repeat a1 {	Header , }
-,//
-As
-{ match Z9_ as matchKey {
-    ""packet""	:calculatedFrom , [ // @lengthOf(
-4294967296 , """ ++ [233]%N ++ runes_of_ascii "t" ++ [233]%N ++ runes_of_ascii """ , ""`tick`"" , 65535
-    , """ ++ [28040; 24687]%N ++ runes_of_ascii """ ,""// no comment"" ,  65535] : trueish
-    ,},
-    repeat metadata	{ repeat _x body `
-`	,  chars
-    MetaDataX `crlf
-line`
-    , uint16 // trailing space 
-u8x	@lengthOf(	As) `
-`  , }//	t
-, uint8
-    /// triple
-    f32a ,
-},
-    }
-, char[] Logon
-, }
-")).
-Eval vm_compute in ("<<<M974>>>" ++ check (runes_of_ascii "packet len { repeat char[ 0 ]
-leftPad`{ , }` ,
-@calculatedFrom( ""abc"" )  zchar[	65535
-    ]Z9_ @lengthOf( tag)
-`tab	here` , match
-u128 as packetx { [ ""it's"" ,
-""\" ++ [233]%N ++ runes_of_ascii """
-    ]:o , ""\n""
-:
-    int  ""a\""b"" // a // b
-: As,
-""{,}"" : chars
-42 : T""1"" : packetx /// triple
-,}, x Pad
-    , int8 Pad
-`a\` ,
-chars a1
-    , char[ 0 ]
-Z9_@calculatedFrom( ""// no comment"" )
-    `" ++ [28040; 24687; 31867; 22411]%N ++ runes_of_ascii "`  ,  }
-    packet x_y_z	{ repeat
-    //	t
-    stringy x_y_z , }root
-packet charz { } // " ++ [128512]%N ++ runes_of_ascii " emoji
-root packet	x{ _x msg_type
-,@tag(
-    0123456789
-) i64  body
-    `two words`
-, @rightPad (
-    // a // b
-    '\x00'
-    )
-@lengthOf(charz)
-//x
-// @lengthOf(
-zchar[
-    0123456789 ] stringy,repeat Packet
-    stringy , repeat A`tab	here` ,	@tag( 0)
-match asx as Pad {	[
-3,
-""" ++ [233]%N ++ runes_of_ascii "t" ++ [233]%N ++ runes_of_ascii """ , ""\n"" ,"""",
-    1
-, 1
-]: Packet 42
-    // c
-    : roots //	t
-},} options	{float
-    = true ;	} /// triple")).
-Eval vm_compute in ("<<<M759>>>" ++ check (runes_of_ascii "// @lengthOf(
-MetaData
-uint8x{ char[	42
-] packetx
-    ,} packet
-len {
-}MetaData	Logon
-{
-    matchKey u128 `
-`
-,
-    string
-MetaDataX`" ++ [233]%N ++ runes_of_ascii "` , }	MetaData
-//
-//	t
-rootA {
-u32 i8i8 , }
-root packet i64_// `tick` ""quote"" 'q'
-{ u32
-    calculatedFrom
-// trailing space 
-/// triple
-,	@tag(10)@rightPad
-    ( ) @leftPad(
-' ' ) uint16
-// c
-// " ++ [128512]%N ++ runes_of_ascii " emoji
-rootA ,
-@lengthOf(
-    //x
-    Pad
-)
-    pack @calculatedFrom(	""x y"") `it's`
-    , uint8 matchKey ,@tag(
-1 // " ++ [128512]%N ++ runes_of_ascii " emoji
-) match Pad as  calculatedFrom
-    {
-[ ""\n"" ,
-7,  1 , """ ++ [233]%N ++ runes_of_ascii "t" ++ [233]%N ++ runes_of_ascii """ ] :len
-    00:Packet, } ,@lengthOf( string_
-    // @lengthOf(
-    )match matchKey as MetaDataX {
-[ ""`tick`""
-, 42 ,
-""x y"" ,
-""" ++ [233]%N ++ runes_of_ascii "t" ++ [233]%N ++ runes_of_ascii """ ,
-4294967296 ]
-    : o // packet A { u8 x, }
-,
-}
-    , uint8
-charz
-    @calculatedFrom( ""a	b"") ,
-    @calculatedFrom( ""a\""b"") repeat
-    u8x {pack , } ,
-}
-")).
-Eval vm_compute in ("<<<M708>>>" ++ check (runes_of_ascii "  packet roots {
-    @calculatedFrom(
-    ""CRC32"" // " ++ [128512]%N ++ runes_of_ascii " emoji
-) @tag(
-    42
-    )  Z9_ leftPad `line1
-line2`
-, @lengthOf( string_) @lengthOf(
-Packet )	@calculatedFrom(  ""// no comment""
-    )
-repeat
-chars len , @tag( //x
-42 )
-@tag( 3 )u8 u128 @lengthOf(	A
-) , char T ,@lengthOf(
-    charz )// `tick` ""quote"" 'q'
-zchar lengthOf, repeat zchar[ 00 ] A
-    ,char[ 4294967296 ] leftPad
-`u8 x,` , @tag( 4294967296
-    ) @tag(
-    //	t
-    007)
-    repeat char[
-    65535 ]
-float
-// packet A { u8 x, }
-//
-`two words`
-    , } packet crc {msg_type @lengthOf(chars	) , string//	t
-chars
-@lengthOf(
-u128 ) ,int64 Header ,match lengthOf//	t
-as pack { [ 255
-,
-""packet"" ]
-// c
-// " ++ [27880; 37322]%N ++ runes_of_ascii "
-:i64_// packet A { u8 x, }
-,//x
-1: u }
-, trueish @lengthOf( packetx
-) , charz @lengthOf( packetx), }
-")).
-Eval vm_compute in ("<<<M4494>>>" ++ check (runes_of_ascii "packet pack {
-    @lengthOf(charz)
-    repeat int64 x_y_z,
-    @calculatedFrom(""abc"")
-    Z9_ {
-        options1 @lengthOf(i64_),
-        string stringy `tab	here`,
-    },
-    @rightPad()
-    chars uint8x `" ++ [233]%N ++ runes_of_ascii "`,
-    @tag(1)
-    match asx as string_ {
-        00 : Header,
-        [
-            42, 1, ""\" ++ [233]%N ++ runes_of_ascii """, """ ++ [233]%N ++ runes_of_ascii "t" ++ [233]%N ++ runes_of_ascii """, 255,
-            """ ++ [128512]%N ++ runes_of_ascii """
-        ] : chars,
-        // trailing space 
-        """ ++ [28040; 24687]%N ++ runes_of_ascii """ : rootA,
-        [
-            0123456789, 4294967296, ""x y"", 7, ""\" ++ [233]%N ++ runes_of_ascii """,
-            10, ""{,}"", 1
-        ] : lengthOf,
-    },
-    @calculatedFrom(""packet"")
-    zchar[65535] Foo `two words`,
-    repeat zchar[255] msg_type,
-    @lengthOf(rootA)
-    char x @lengthOf(x_y_z),
-    @tag(255)
-    @calculatedFrom(""{,}"")
-    int64 Packet `
-    `,
-    Foo,
-}")).
-Eval vm_compute in ("<<<M592>>>" ++ check (runes_of_ascii "options
-{ len=int8 /// triple
-Header
-= '0' ; } packet
-options1 { @calculatedFrom( ""{,}"" ) repeat//
-body , } packet uint8x {  repeat int8 f32a
-,} packet	As {
-    match	u128 as
-    o { 0  :
-    len ,
-    // c
-    }, @calculatedFrom( """" )  zchar // @lengthOf(
-As , zchar[00] u8x	, @lengthOf(u8x )match	stringy as o
-    { [
-    ""1"" , ""\" ++ [233]%N ++ runes_of_ascii """ ]// " ++ [128512]%N ++ runes_of_ascii " emoji
-: repeatCount ,  [ 7,
-    // " ++ [27880; 37322]%N ++ runes_of_ascii "
-    3
-, ""1""
-, 007
-, ""\n"" , 0]
-    : metadata,//	t
-""it's"" : o
-,  00
-    : roots
-, 4294967296 :
-    uint8x  , } , @calculatedFrom(""it's""
-)
-@tag(3 ) int @lengthOf( int ) , char[] asx @calculatedFrom( ""a\""b"" ) `a\` , int16	charz,
-    //	t
-    string x_y_z@lengthOf( int	) `a\`
-    , i64 o
-,} root
-    packet zchar { }
-")).
-Eval vm_compute in ("<<<M3875>>>" ++ check (runes_of_ascii "packet As {
-    @lengthOf(chars)
-    @leftPad(' ')
-    string leftPad @lengthOf(_x),
-    @tag(00)
-    match A as falsey {
-        // `tick` ""quote"" 'q'
-        0 : i64_,
-        [
-            ""x y"", ""a\""b"", ""it's"", ""x y"", 007,
-            ""a	b""
-        ] : roots,
-        65535 : stringy,
-    },
-    zchar[4294967296] string_ `it's`,
-    int16 Logon `it's`,
-    @calculatedFrom(""" ++ [233]%N ++ runes_of_ascii "t" ++ [233]%N ++ runes_of_ascii """)
-    repeat char[] stringy `a\`,
-    repeat char[3] crc,
-    @lengthOf(msg_type)
-    x {
-        u8x int `two words`,
-        i8i8 _x `
-                `,
-        int8 Logon @lengthOf(Pad),
-    },
-    @tag(1)
-    i64 string_ @calculatedFrom(""\" ++ [233]%N ++ runes_of_ascii """),// packet A { u8 x, }
-    char[] Foo,
-}")).
-Eval vm_compute in ("<<<M419>>>" ++ check (runes_of_ascii "// `tick` ""quote"" 'q'
-packet
-    A {
-// `tick` ""quote"" 'q'
-// c
-repeat lengthOf // " ++ [128512]%N ++ runes_of_ascii " emoji
-{ As
-metadata,match pack as// @lengthOf(
-As {[ 7 ]://x
-int
-,""it's"" : i64_ ,""a\""b"": // " ++ [27880; 37322]%N ++ runes_of_ascii "
-string_ ,
-    [ 00 , 4294967296 , ""{,}"" , """ ++ [233]%N ++ runes_of_ascii "t" ++ [233]%N ++ runes_of_ascii """ ,
-""" ++ [233]%N ++ runes_of_ascii "t" ++ [233]%N ++ runes_of_ascii """
-, ""abc"",
-1
-, 1]
-: Pad
-    // @lengthOf(
-    } , leftPad x
-// @lengthOf(
-//x
-`" ++ [28040; 24687; 31867; 22411]%N ++ runes_of_ascii "` ,
-char[ 65535
-    ]metadata ,}
-    ,
-}packet	a1 {
-} packet//x
-pack
-{ int {i64_  x_y_z,// " ++ [128512]%N ++ runes_of_ascii " emoji
-u8x `say ""hi""` ,f32 A
-    `u8 x,`  ,} ,
-}
-    root packet falsey { @tag( 255) repeat float64
-Logon
-    ,
-float64
-Foo @lengthOf( float )  , } options{ matchKey
-    // packet A { u8 x, }
-    = char[] ; tag =' ' ; i64_=
-""1"" }
-")).
-Eval vm_compute in ("<<<M1015>>>" ++ check (runes_of_ascii "packet asx	{ options1 @calculatedFrom(
-    """ ++ [128512]%N ++ runes_of_ascii """ )
-,A // " ++ [128512]%N ++ runes_of_ascii " emoji
-u, char[ 1 ]body,
-} MetaData u // a // b
-{
-    zchar[ // packet A { u8 x, }
-1 // @lengthOf(
-]	options1 ,
-    } packet falsey {repeat
-Foo { zchar[4294967296 // " ++ [27880; 37322]%N ++ runes_of_ascii "
-]  charz
-@lengthOf(
-    roots )
-// @lengthOf(
-//	t
-,} //	t
-, float , @lengthOf(	u8x )
-    @calculatedFrom(
-    ""{,}"" ) @leftPad	( '0'
-)repeat	u128
-    MetaDataX  `u8 x,` , @tag( 255 )@rightPad // a // b
-()
-    repeat calculatedFrom{ repeat string f32a // trailing space 
-, match
-// " ++ [27880; 37322]%N ++ runes_of_ascii "
-// " ++ [128512]%N ++ runes_of_ascii " emoji
-_x as x {""a	b""
-    : A , }, float32 zchar `
-` , string string_//x
-`line1
-line2` , } ,
-}
-")).
-Eval vm_compute in ("<<<M3912>>>" ++ check (runes_of_ascii "packet	// a // b
-      u8x {	// a // b
-	len
-{
-    o
-roots
-
-    ,match
-
-string_  // c
+    // `tick` ""quote"" 'q'
+    ""a\""b"" // trailing space 
+) @rightPad( '0'
+)repeat int8
+u128`doc` , match packetx //x
 as
-
-    repeatCount 
+a1 { [
+    // " ++ [27880; 37322]%N ++ runes_of_ascii "
+    65535, """ ++ [128512]%N ++ runes_of_ascii """ ]
+: packetx	,00 : x
+,
+// c
+// @lengthOf(
+} ,
+    @calculatedFrom(""" ++ [28040; 24687]%N ++ runes_of_ascii """ )match
+leftPad as lengthOf /// triple
+{ 0
+: packetx, [
+    ""{,}"" // `tick` ""quote"" 'q'
+,  0,
+""CRC32"" , 4294967296
+]
+    :
+    // @lengthOf(
+    int
+, """ ++ [28040; 24687]%N ++ runes_of_ascii """:A, [ 7
+, 0  ,
+""abc"" ,""CRC32"" ,""x y""// c
+,
+    //	t
+    255
+// a // b
+// " ++ [27880; 37322]%N ++ runes_of_ascii "
+, 007
+, 1 // @lengthOf(
+]	: _x } ,matchKey@lengthOf(tag ) , string BodyLength
+    @calculatedFrom( ""packet""	)
+/// triple
+// a // b
+, As @lengthOf(i8i8 ) `a\`
+,int16 A@lengthOf( tag ) `// not a comment`
+// " ++ [128512]%N ++ runes_of_ascii " emoji
+//
+,
+}
+MetaData metadata
+//	t
+// " ++ [128512]%N ++ runes_of_ascii " emoji
 {
-    [
-	""`tick`"" ,  """ ++ [128512]%N ++ runes_of_ascii """	,  // " ++ [128512]%N ++ runes_of_ascii " emoji
-  7 ,""" ++ [233]%N ++ runes_of_ascii "t" ++ [233]%N ++ runes_of_ascii """ ,
-10 ,
-	""packet""
+u32
+// c
+// a // b
+a1 ,  u16 BodyLength `tab	here` // " ++ [128512]%N ++ runes_of_ascii " emoji
+, int8
+lengthOf// " ++ [27880; 37322]%N ++ runes_of_ascii "
+,
+    // " ++ [128512]%N ++ runes_of_ascii " emoji
+    trueish x_y_z ,charz leftPad //
+,} MetaData leftPad {	} packet rootA
+{ match
+    x
+as
+    int
+    {0123456789// `tick` ""quote"" 'q'
+: u8x
+    ,
+    0123456789
+    :  tag
+    ,	} , @lengthOf(A )
+repeat
+f32 body `a\` ,// trailing space 
+i64	rootA
+    // packet A { u8 x, }
+    , @tag(007 ) match // @lengthOf(
+Logon as metadata
+    {
+[""a	b"", // `tick` ""quote"" 'q'
+65535
+, ""abc"", 3 ,
+10 , ""\" ++ [233]%N ++ runes_of_ascii """
+]
+    // packet A { u8 x, }
+    :u128, 7
+: // packet A { u8 x, }
+zchar, 7 : stringy
+    , 007
+    :  string_ , """" : //x
+a1 , }
+,// c
+i8
+lengthOf// trailing space 
+, float64 pack @calculatedFrom(""" ++ [128512]%N ++ runes_of_ascii """
+) ,  repeatCount @calculatedFrom(
+""// no comment"") , float // c
+string_ , @leftPad // c
+(
+    '0' ) @calculatedFrom( ""a	b"" )@calculatedFrom( ""\" ++ [233]%N ++ runes_of_ascii """ ) // `tick` ""quote"" 'q'
+match
+    Logon as
+    // @lengthOf(
+    msg_type {	255 : roots, 255: x_y_z
+// c
+// packet A { u8 x, }
+,	""it's""  :
+len,[00 ,
+    // packet A { u8 x, }
+    42
+    , ""\n"" ,007
+    , ""1""
+,//
+""a\\"" , ""a\\""] :
+f32a [
+    42,	""a	b""
+/// triple
+//
+]  :
+    Header, [ """" , ""\" ++ [233]%N ++ runes_of_ascii """// `tick` ""quote"" 'q'
+]
+    : //
+tag , } , // packet A { u8 x, }
+int , }
+    options // c
+{uint8x = // @lengthOf(
+""\n"" ;}
+")).
+Eval vm_compute in ("<<<M2012>>>" ++ check (runes_of_ascii "  options
+
+    { StringPrefixLenType = u16
+
+;
+	ArrayPrefixLenType
+    =u16 
+;
+	}
+
+    packet
+SampleBinary
+{ uint16 MsgType
+
+    `" ++ [28040; 24687; 31867; 22411]%N ++ runes_of_ascii "`
+    ,  u16 
+BodyLenght @lengthOf(  Body
+)
+
+    `" ++ [28040; 24687; 20307; 38271; 24230]%N ++ runes_of_ascii "`
+,
+
+match
+    MsgType  as  Body { 1
+:Logon,
+2
+	: Logout ,3
+:
+	Heartbeat
+    ,	4
+
+:
+
+RiskControlRequest  ,  5  :
+
+    RiskControlResponse
+
+,}
+    ,@calculatedFrom(
+""CRC32""	)
+u32 Ckecksum `" ++ [26657; 39564; 21644]%N ++ runes_of_ascii "` ,
+
+    }packet Logon{
+	@leftPad ('0' 
+)char[10  ]
+
+    UserName
+	`" ++ [29992; 25143; 21517]%N ++ runes_of_ascii "`
+    ,
+string
+
+Password
+	`" ++ [23494; 30721]%N ++ runes_of_ascii "`,
+
+    uint64 ClientId`" ++ [23458; 25143; 31471]%N ++ runes_of_ascii "ID` 
+,
+
+u16	HeartbeatInterval
+
+`" ++ [24515; 36339; 38388; 38548]%N ++ runes_of_ascii "`
+,
+}
+packet
+
+Logout
+{@rightPad  (
+
+'0'
+	)char[
+    10] 
+UserName`" ++ [29992; 25143; 21517]%N ++ runes_of_ascii "` 
+,	uint64
+ClientId`" ++ [23458; 25143; 31471]%N ++ runes_of_ascii "ID` ,
+}
+
+packet	Heartbeat
+{
+
+    }packet 
+RiskControlRequest{string
+    UniqueOrderId
+    `" ++ [21807; 19968; 35746; 21333; 21495]%N ++ runes_of_ascii "`
+    ,char[
+
+    16 
+]ClOrdID
+	`" ++ [23458; 25143; 35746; 21333; 21495]%N ++ runes_of_ascii "`
+
+,char[
+	3 ] MarketID 
+`" ++ [24066; 22330]%N ++ runes_of_ascii "id` ,  char[ 
+12
+    ] SecurityID`" ++ [35777; 21048; 20195; 30721]%N ++ runes_of_ascii "` 
+, char
+    Side`" ++ [20080; 21334; 26041; 21521]%N ++ runes_of_ascii "`,
+char
+OrderType`" ++ [35746; 21333; 31867; 22411]%N ++ runes_of_ascii "` , u64
+
+Price `" ++ [20215; 26684]%N ++ runes_of_ascii "`	, u32
+Qty`" ++ [25968; 37327]%N ++ runes_of_ascii "`
 
     ,
-""\" ++ [233]%N ++ runes_of_ascii """]
+repeat
+    string
+ExtraInfo
 
-    : roots	,
-	[  10
-,	1] :	leftPad , } ,
-    // c
-  	// c
-  u T  // packet A { u8 x, }
-	,	zchar[ 3  // a // b
-		]
-	float`" ++ [28040; 24687; 31867; 22411]%N ++ runes_of_ascii "`
+    `" ++ [38468; 21152; 20449; 24687]%N ++ runes_of_ascii "`
+	, repeat	SubOrder	{ char[ 16  ] ClOrdID`" ++ [23376; 35746; 21333; 21495]%N ++ runes_of_ascii "`, u64
+    Price
+
+    `" ++ [23376; 35746; 21333; 20215; 26684]%N ++ runes_of_ascii "`	, u32
+	Qty
+`" ++ [23376; 35746; 21333; 25968; 37327]%N ++ runes_of_ascii "` , } ,} packet
+RiskControlResponse{ string
+UniqueOrderId  `" ++ [21807; 19968; 35746; 21333; 21495]%N ++ runes_of_ascii "`
 ,
-},}
-MetaData
-	asx	{ zchar[	10
+    i32 Status  `" ++ [29366; 24577]%N ++ runes_of_ascii "` ,  string
 
+    Msg
+
+`" ++ [32467; 26524; 20449; 24687]%N ++ runes_of_ascii "`  ,
+
+repeat	Detail , 
+} packet
+
+    Detail
+	{
+
+    string 
+RuleName  `" ++ [35268; 21017; 21517; 31216]%N ++ runes_of_ascii "` , u16 Code 
+`" ++ [21407; 22240; 20195; 30721]%N ++ runes_of_ascii "`
+
+,}
+")).
+Eval vm_compute in ("<<<M245>>>" ++ check (runes_of_ascii "packet As { @lengthOf( // c
+u8x )
+    repeat u32 T ,
+string Foo@calculatedFrom(
+""it's"" ) `doc`  , @tag(
+// a // b
+// " ++ [27880; 37322]%N ++ runes_of_ascii "
+00) //
+@tag( 42 )	repeatCount { packetx { repeat// @lengthOf(
+f64 x_y_z
+    `doc` //x
+,
+repeat
+    char[65535
+] crc ,} ,
+    u16 A , o @lengthOf( MetaDataX)  `// not a comment`
+    , repeat string  BodyLength `
+`
+    /// triple
+    , }, repeatCount
+@lengthOf( chars)
+,  match //	t
+uint8x
+    as As  {007 :
+Packet """"  : Header 3
+:zchar 7
+// packet A { u8 x, }
+// " ++ [27880; 37322]%N ++ runes_of_ascii "
+:
+u128 , [ 4294967296 ,	""x y"" // " ++ [128512]%N ++ runes_of_ascii " emoji
 ]
-BodyLength , roots
-
-tag
-	,  }  MetaData zchar { uint64 chars 
-`" ++ [28040; 24687; 31867; 22411]%N ++ runes_of_ascii "`
-    ,char[]  Logon
-, Packet o
-	`crlf
-line`,  falsey
-float
+:
+crc
+[ ""1"" ,
+    00]:
+//x
+// @lengthOf(
+int ,	}
 ,
-	// @lengthOf(
-    char[]
-	uint8x
+@lengthOf( Foo ) repeat // " ++ [128512]%N ++ runes_of_ascii " emoji
+u
+{string float
+// packet A { u8 x, }
+/// triple
+,  string matchKey
+    @calculatedFrom( ""it's"" // " ++ [128512]%N ++ runes_of_ascii " emoji
+)  `it's` ,
+    repeat Packet repeatCount
+    ,
+    }, @lengthOf( T)
+A
+    //x
+    @lengthOf( rootA // c
+) `` ,
+    repeatCount // " ++ [128512]%N ++ runes_of_ascii " emoji
+@calculatedFrom( ""packet"" ) , char[] x
+// `tick` ""quote"" 'q'
+// packet A { u8 x, }
+@calculatedFrom( ""abc"" ) `crlf
+line` , }packet
+i8i8
+// c
+// trailing space 
+{} options{ MetaDataX=true ;//x
+charz	=
+    true ; }
+")).
+Eval vm_compute in ("<<<M1847>>>" ++ check (runes_of_ascii "
 
-,int
+  packet 
+options1
+{
 
+repeat
+matchKey`doc`
+
+    ,  char[]
+string_ 
+// " ++ [27880; 37322]%N ++ runes_of_ascii "
+    	`
+`
+, 	 // packet A { u8 x, }
+    uint16
+T
+    , 
+repeatCount
+_x ,
+} packet  msg_type	{ @lengthOf(  Pad
+)
+
+asx
+	@calculatedFrom( 
+""\" ++ [233]%N ++ runes_of_ascii """
+)
+,  @tag( 
+4294967296
+
+) Logon
+    `a\`
+,
+@tag( 0
+	) crc
+@lengthOf( charz// " ++ [128512]%N ++ runes_of_ascii " emoji
+    	)	`u8 x,`
+,char[
+	0 
+]f32a  // " ++ [128512]%N ++ runes_of_ascii " emoji
+,
+
+u8
     A
 
-    `it's`,
-
-    } ")).
-Eval vm_compute in ("<<<M539>>>" ++ check (runes_of_ascii "
-root
-packet
-packetx {
-charz `" ++ [233]%N ++ runes_of_ascii "`
-    // " ++ [27880; 37322]%N ++ runes_of_ascii "
-    , float64 x @calculatedFrom( ""// no comment""
-)
-    `{ , }`
-// packet A { u8 x, }
-/// triple
+`line1
+line2`
 ,
-}
-packet crc{ }packet x {
-@tag(10)@rightPad ('\x00' ) repeat uint32 Z9_
-    `
-`, @lengthOf(
-rootA ) @calculatedFrom(
-    // @lengthOf(
-    ""{,}"" // " ++ [128512]%N ++ runes_of_ascii " emoji
-)
-    stringy // c
-``, @leftPad ( '0'
-    )
-@lengthOf( i64_ ) @lengthOf( zchar	) repeat zchar[0123456789]body,
-//	t
-// @lengthOf(
-@rightPad (	)
-    @lengthOf( leftPad )
-@leftPad (  '\x00' )string
-zchar // @lengthOf(
-@lengthOf( T ) , } //	t")).
-Eval vm_compute in ("<<<M4478>>>" ++ check (runes_of_ascii "packet u8x {
-    match BodyLength as string_ {
-        // c
-        ""\" ++ [233]%N ++ runes_of_ascii """ : zchar,
-    },
-}
+	Z9_
 
-packet metadata {
-    // `tick` ""quote"" 'q'
-    @tag(0123456789)
-    /// triple
-    @leftPad('\x00')
-    repeat char[] trueish,
-    repeat metadata {
-        char[] float `line1
-                line2`,
-        char[00] T,
-        uint8x {
-            repeat len string_ `doc`,
-        },
-        options1 @lengthOf(T) `say ""hi""`,
-    },
-    @calculatedFrom(""CRC32"")
-    uint16 BodyLength @calculatedFrom(""" ++ [28040; 24687]%N ++ runes_of_ascii """),
-}//	t")).
-Eval vm_compute in ("<<<M3814>>>" ++ check (runes_of_ascii "root packet roots {
-}
+    u 
+`{ , }`
+	,repeat
+uint8x`" ++ [28040; 24687; 31867; 22411]%N ++ runes_of_ascii "`,
 
-packet As {
-    @calculatedFrom(""" ++ [28040; 24687]%N ++ runes_of_ascii """)
-    i16 msg_type `" ++ [28040; 24687; 31867; 22411]%N ++ runes_of_ascii "`,
-    repeat repeatCount {
-        repeat pack msg_type `crlf
-                line`,//
-        match repeatCount as _x {
-            ""`tick`"" : trueish,
-            // c
-            [""\n"", 65535, 255, ""abc"", 0123456789] : options1,
-        },//x
-    },
-}
-
+int8	Packet@calculatedFrom( ""{,}"" )
+	,  
+  // packet A { u8 x, }
+  } packet
+A 
+{ 
+    // trailing space 
 // trailing space 
+
+  @tag(
+3	)	@tag(  
+      /// triple
+	1
+
+) u16
+    A // c
+  ,
+@tag(
+
+1 )
+match
+
 //
-MetaData x_y_z {
-    options1 chars,
-    int32 leftPad `{ , }`,
-    string i64_ `say ""hi""`,
-    int32 BodyLength `a\`,
-}")).
-Eval vm_compute in ("<<<M3934>>>" ++ check (runes_of_ascii "packet f32a {
+      // @lengthOf(
+  roots
+	as
+	pack {	// c
+	[""CRC32""
+]
+	: 
+i8i8""a\\""	: trueish
+,[""{,}"",
+	""" ++ [28040; 24687]%N ++ runes_of_ascii """
+	]
+:
+
+    falsey
+	// `tick` ""quote"" 'q'
+    } // a // b
+		,@rightPad // packet A { u8 x, }
+
+(	' ')
+
+int16
+
+    Packet `
+` , // `tick` ""quote"" 'q'
+	  repeat
+    zchar[1
+]
+	Pad
+
+    ,// a // b
 }
 
-packet trueish {
-    @rightPad()
-    rootA @lengthOf(Pad),
-    @tag(0)
-    Logon @lengthOf(trueish),
-    As `
-        `,
-    repeat int8 Logon,
-    @tag(255)
-    // `tick` ""quote"" 'q'
-    char A,
-    i64 Header,
-    match Z9_ as falsey {
-        65535 : x_y_z,
-        ""CRC32"" : float,
+")).
+Eval vm_compute in ("<<<M17>>>" ++ check (runes_of_ascii "  root
+//
+// `tick` ""quote"" 'q'
+packet lengthOf {repeat char[]asx`// not a comment` // trailing space 
+,	lengthOf{ string options1	, char[] A @calculatedFrom( ""\n"" )
+    ,	int16 trueish , },repeat  int16	stringy  , string Logon `{ , }`
+, @lengthOf(	metadata )
+match trueish	as
+    Foo { 00
+:
+T , 7
+: Z9_ , } ,
+string_ a1
+`" ++ [28040; 24687; 31867; 22411]%N ++ runes_of_ascii "`// packet A { u8 x, }
+, } packet zchar { @calculatedFrom(
+    ""x y"" //x
+) repeatCount`
+`, match
+    //
+    stringy as u {255 // `tick` ""quote"" 'q'
+:charz } , zchar[ 0123456789]
+    // a // b
+    Z9_
+@lengthOf(
+    crc )
+`it's` , @leftPad
+    ( '\x00' )zchar[
+    0 ]rootA @calculatedFrom( ""CRC32"" ) , @lengthOf( leftPad )
+    // packet A { u8 x, }
+    Foo @calculatedFrom(
+""{,}"" ) ,
+uint32 Foo
+`// not a comment` , f32 float , repeat matchKey ,
+Logon @lengthOf(
+    rootA
+) `" ++ [28040; 24687; 31867; 22411]%N ++ runes_of_ascii "` ,
+    }
+")).
+Eval vm_compute in ("<<<M2025>>>" ++ check (runes_of_ascii "root packet stringy {
+    repeat u16 falsey `
+    `,
+    u16 Pad,
+    @lengthOf(x)
+    Logon {
+        repeat zchar[65535] Packet `it's`,
     },
-    i8 len,
+}
+
+packet len {
+    @leftPad()
+    repeat metadata {
+        match asx as asx {
+            ""a\\"" : f32a,
+        },
+    },
+    uint16 falsey,
+    body,
+    repeat string lengthOf `say ""hi""`,
+}
+
+packet i64_ {
+    x,
+    @lengthOf(i64_)
     @tag(7)
     // `tick` ""quote"" 'q'
-    repeat rootA x_y_z,
-    @tag(00)
-    zchar[007] x_y_z `a\`,
-}
-
-MetaData roots {
-}// `tick` ""quote"" 'q'")).
-Eval vm_compute in ("<<<M1158>>>" ++ check (runes_of_ascii "packet// a // b
-crc {@rightPad ( '0') int@calculatedFrom(""\n"" ) ,
-o// trailing space 
-, Header
-`say ""hi""`	, @lengthOf( asx
-// " ++ [27880; 37322]%N ++ runes_of_ascii "
-//
-)
-    // c
-    repeat packetx
-{  match uint8x
-    as o { 65535 /// triple
-:
-    _x// trailing space 
-42 : x,  }, } ,repeat x_y_z	, char[ 00 ] crc@lengthOf(
-    Z9_
-)
-    , u8x
-    {uint32
-float
-    `" ++ [28040; 24687; 31867; 22411]%N ++ runes_of_ascii "`
-, string_
-    `
-`, zchar[ 65535] u , falsey
-    @lengthOf( MetaDataX) ,
-    //
-    } ,string A `two words`  , }")).
-Eval vm_compute in ("<<<M129>>>" ++ check (runes_of_ascii "root packet options1
-{ @lengthOf(	msg_type ) Logon @lengthOf( packetx )`
-` , As  {
-repeat	T
-`
-`
-    ,float64 Foo	`crlf
-line`
-//x
-// a // b
-,repeat repeatCount x_y_z`a\` ,	int8 msg_type
-,
-    } , // `tick` ""quote"" 'q'
-msg_type @lengthOf( body ) , u64 rootA @calculatedFrom(
-""" ++ [128512]%N ++ runes_of_ascii """
-    ) ,@calculatedFrom(""packet""	) i32
-    Header ,	uint32 BodyLength @lengthOf(
-trueish //x
-)
-, @lengthOf(
-f32a ) f32
-    Z9_ `{ , }`, } // a // b")).
-Eval vm_compute in ("<<<M863>>>" ++ check (runes_of_ascii "packet // " ++ [27880; 37322]%N ++ runes_of_ascii "
-u8x{  u64
-    metadata `a\`,  @tag(  65535 ) @rightPad(
-    )	repeat
-int16 As
-    , @rightPad ( )
-match	lengthOf as body {7 :
-// @lengthOf(
-// @lengthOf(
-chars	,  [ 255 ,
-""// no comment"" ,
-    //x
-    0123456789
-,""\n""
-    , 7 ,	""a	b"" ] :
-    x_y_z , ""abc"":
-metadata
-} , } packet
-    lengthOf{char[] // " ++ [128512]%N ++ runes_of_ascii " emoji
-As
-@calculatedFrom(	""a\\"" )
-// " ++ [128512]%N ++ runes_of_ascii " emoji
-// `tick` ""quote"" 'q'
-`a\`
-    //
-    , }
-// c
-")).
-Eval vm_compute in ("<<<M905>>>" ++ check (runes_of_ascii "options{ Foo
-    // " ++ [27880; 37322]%N ++ runes_of_ascii "
-    = ' ' ; //
-calculatedFrom =
-'\x00' ; Logon//x
-= 0 //
-x=
-    '\x00' ; // packet A { u8 x, }
-} packet
-    _x	{
-@calculatedFrom( """ ++ [28040; 24687]%N ++ runes_of_ascii """  ) repeat int32 Z9_, Pad packetx , @lengthOf(
-u128  )
-    @tag( 1 ) match msg_type as
-    x
-{
-    // @lengthOf(
-    [
-""" ++ [233]%N ++ runes_of_ascii "t" ++ [233]%N ++ runes_of_ascii """]
-    :x , } // " ++ [27880; 37322]%N ++ runes_of_ascii "
-,@lengthOf(	a1
-    // " ++ [128512]%N ++ runes_of_ascii " emoji
-    ) leftPad
-// a // b
-//x
-As , i8i8
-_x
-    ,
-    } // " ++ [128512]%N ++ runes_of_ascii " emoji")).
-Eval vm_compute in ("<<<M1260>>>" ++ check (runes_of_ascii "root packet
-roots { i8i8
-@calculatedFrom( ""abc"" ) , repeat uint32 matchKey `doc` , char[255 ]
-A @lengthOf( calculatedFrom
-) `{ , }` // c
-,
-crc//x
-{ A Header `
-` , char[] o ,repeat zchar[ 1
-]//x
-body
-`" ++ [233]%N ++ runes_of_ascii "` ,//	t
-}, int8 u ,
-    match packetx as	u
-{ [ /// triple
-0
-    // a // b
-    , ""`tick`"" ]:
-Packet//
-,""\" ++ [233]%N ++ runes_of_ascii """
-    /// triple
-    : Packet, [
-4294967296 ]
-: matchKey,}
-    ,}
-")).
-Eval vm_compute in ("<<<M4089>>>" ++ check (runes_of_ascii "packet body {
-}
-
-packet Foo {
-    int @lengthOf(x),
-    float32 len `" ++ [28040; 24687; 31867; 22411]%N ++ runes_of_ascii "`,
-    repeat f32a Packet,
-    i8 stringy @calculatedFrom(""// no comment"") `line1
-        line2`,
-    @tag(0)
-    match u as falsey {
-        [10, 3, ""`tick`"", 42, 3] : Pad,
-        7 : repeatCount,
-        0 : Foo,
+    @calculatedFrom("""")
+    repeat zchar[1] i8i8,
+    i64 i64_ @calculatedFrom(""\" ++ [233]%N ++ runes_of_ascii """) `line1
+    line2`,
+    float `tab	here`,
+    @calculatedFrom(""" ++ [128512]%N ++ runes_of_ascii """)
+    char[] Logon ``,
+    match leftPad as stringy {
+        0 : float,
+        ""\n"" : Pad,
     },
+    i8i8 @lengthOf(roots),
 }
 
-MetaData Packet {
-    string u,
+root packet i8i8 {
+    tag @lengthOf(T) `" ++ [28040; 24687; 31867; 22411]%N ++ runes_of_ascii "`,
+}")).
+Eval vm_compute in ("<<<M1838>>>" ++ check (runes_of_ascii "packet rootA {
+    @tag(3)
+    zchar[00] x_y_z `" ++ [28040; 24687; 31867; 22411]%N ++ runes_of_ascii "`,
+    _x,
+    // a // b
+    float64 A @lengthOf(u8x),
+    u8 rootA `line1
+        line2`,
+    zchar[7] stringy,
+    match Header as f32a {
+        ""\" ++ [233]%N ++ runes_of_ascii """ : o,
+        [
+            4294967296, 7, 4294967296, ""packet"", ""a	b"",
+            ""CRC32"", 7, ""a	b""
+        ] : repeatCount,
+        ""a\""b"" : Header,
+        [""a\""b""] : crc,
+        [007, 007, ""abc""] : metadata,
+        4294967296 : chars,
+    },
+    @tag(1)
+    i8 matchKey `a\`,
+    // @lengthOf(
+    // " ++ [128512]%N ++ runes_of_ascii " emoji
+    @lengthOf(body)
+    tag,
+    @lengthOf(matchKey)
+    @lengthOf(o)
+    @lengthOf(pack)
+    repeat u {
+        calculatedFrom @lengthOf(falsey),
+    },
+}")).
+Eval vm_compute in ("<<<M1933>>>" ++ check (runes_of_ascii "// top
+	packet
+
+// c0
+  trueish 
+        // c1
+
+{
+    // c2
+
+repeat
+// c3
+
+u32
+	    // c4
+MetaDataX
+	// c5
+    	`doc` 
+	    // c6
+  , 
+	// c7
+Header 
+        // c8
+		{ 
+	    // c9
+packetx 
+// c10
+		o 
+      // c11
+      `u8 x,` 
+// c12
+	,  
+  // c13
+		} 
+
+// c14
+  , 
+	    // c15
+
+@leftPad
+    // c16
+
+(
+        // c17
+
+  '\x00'
+
+    // c18
+  	) 
+// c19
+
+repeat
+    // c20
+  char[ 
+	// c21
+
+0123456789
+        // c22
+
+	] 
+
+// c23
+	repeatCount
+    // c24
+, 
+// c25
+  } 
+
+// c26
+
+	packet  
+      // c27
+		Packet  
+      // c28
+{ 
+
+// c29
+      } 
+        // c30
+")).
+Eval vm_compute in ("<<<M1198>>>" ++ check (runes_of_ascii "// top
+packet
+    // c0
+trueish
+    // c1
+{
+    // c2
+repeat
+    // c3
+u32
+    // c4
+MetaDataX
+    // c5
+`doc`
+    // c6
+,
+    // c7
+Header
+    // c8
+{
+    // c9
+packetx
+    // c10
+o
+    // c11
+`u8 x,`
+    // c12
+,
+    // c13
+}
+    // c14
+,
+    // c15
+@leftPad
+    // c16
+(
+    // c17
+'\x00'
+    // c18
+)
+    // c19
+repeat
+    // c20
+char[
+    // c21
+0123456789
+    // c22
+]
+    // c23
+repeatCount
+    // c24
+,
+    // c25
+}
+    // c26
+packet
+    // c27
+Packet
+    // c28
+{
+    // c29
+}
+    // c30
+")).
+Eval vm_compute in ("<<<M1426>>>" ++ check (runes_of_ascii "  options
+    { LittleEndian 
+=false
+
+    ; StringPrefixLenType 
+=
+
+u32 
+;
+ArrayPrefixLenType =u16
+	;}	packet
+	Party {
+@leftPad(
+'0'
+
+)  char[
+    12 ]
+	Ref	, repeat
+char[  6	]
+x
+,
+
+    }  packet Logon  { uint32	clOrdID
+,
+
+Party
+, 
+}
+
+    root
+    packet Ack
+
+    {
+    zchar[
+	2 ] f1 , u32 
+seqNo ,
+
+u32
+
+Side2 @lengthOf(
+
+Body	)
+,
+match
+    seqNo
+	as Body
+
+    {
+
+    43 :	Logon,93 
+:
+Party
+,
+
+    }	,
+    }
+")).
+Eval vm_compute in ("<<<M1913>>>" ++ check (runes_of_ascii "// c
+options {
+    i8i8 = """ ++ [28040; 24687]%N ++ runes_of_ascii """;
+    Pad = ' '
+}
+
+root packet i8i8 {
+    i64 matchKey `" ++ [233]%N ++ runes_of_ascii "`,
+    match repeatCount as x {
+        //	t
+        // a // b
+        42 : float,
+        007 : u,
+    },
+    @calculatedFrom(""a	b"")
+    string_ {
+        matchKey string_,// trailing space 
+    },
+    repeat char[] repeatCount,
 }
 
 options {
-    uint8x = true;
+    msg_type = true;
+    int = u16
+    string_ = false;
 }")).
-Eval vm_compute in ("<<<M1056>>>" ++ check (runes_of_ascii "options {
-}packet crc // " ++ [27880; 37322]%N ++ runes_of_ascii "
-{ calculatedFrom{ zchar[7
-    ] Logon , // @lengthOf(
-trueish
-rootA `say ""hi""`
-// `tick` ""quote"" 'q'
-/// triple
-, repeat
-    // packet A { u8 x, }
-    calculatedFrom Z9_ , repeat
-MetaDataX { repeat // " ++ [27880; 37322]%N ++ runes_of_ascii "
-char[] int ,
-},
-    }
-, rootA @calculatedFrom(
-""it's""
-    )
-, match
-    charz as body
-{0123456789: chars ,
-} ,
-}
-")).
-Eval vm_compute in ("<<<M4293>>>" ++ check (runes_of_ascii "packet T {
-    matchKey Header,
-    //
-    /// triple
-    zchar[3] a1,
-    // packet A { u8 x, }
-    // trailing space 
-}
-
-MetaData matchKey {
-    // " ++ [27880; 37322]%N ++ runes_of_ascii "
-    f64 f32a `two words`,
-    zchar[255] Logon `{ , }`,
-    zchar[1] calculatedFrom,
-    msg_type MetaDataX `{ , }`,
-    a1 lengthOf `say ""hi""`,
-}
-
-root packet pack {
-    x int,
-}")).
-Eval vm_compute in ("<<<M1082>>>" ++ check (runes_of_ascii "  options{ } options	{ x
-=true }
-    MetaData uint8x
-{ i8i8 u8x `tab	here` , char[
-0123456789
-    ] calculatedFrom  `` , float64 uint8x
-    , charz
-    options1
-,} options { i8i8 = char[	007 ]
-// " ++ [27880; 37322]%N ++ runes_of_ascii "
-// " ++ [27880; 37322]%N ++ runes_of_ascii "
-;
-    } options
-    { options1 ='\x00'; // packet A { u8 x, }
-zchar= '\x00' //
-string_ //x
-=//
-""" ++ [128512]%N ++ runes_of_ascii """
-;
-body='0' } 	 ")).
-Eval vm_compute in ("<<<M4093>>>" ++ check (runes_of_ascii "
-options
-
-{ 
-uint8x 
-=""{,}"" 
-  // `tick` ""quote"" 'q'
-
-  // " ++ [128512]%N ++ runes_of_ascii " emoji
-	;
-
-    } packet
-
-    asx
-
-    {	match
-    f32a	as msg_type {""{,}""
-
-: int
-
-[ 
-""" ++ [233]%N ++ runes_of_ascii "t" ++ [233]%N ++ runes_of_ascii """
-
-,""a\\"" ,3
-    , """ ++ [128512]%N ++ runes_of_ascii """ ,1,""a\""b""  ,
-    """ ++ [128512]%N ++ runes_of_ascii """
-
-    ]
-
-    : repeatCount , } 
-, string
-Z9_  `{ , }`
-
-    ,u128 {
-	char[]Packet ,	}
-, 	 //	t
-    	} ")).
-Eval vm_compute in ("<<<M1557>>>" ++ check (runes_of_ascii "root packet Foo // " ++ [128512]%N ++ runes_of_ascii " emoji
-{ } options {
-    // a // b
-    tag // `tick` ""quote"" 'q'
-= //	t
-""""
-    ; u8x = zchar[0  ] }
-MetaData
-    int {zchar[ 10]
-lengthOf	`` , i64 u8x`// not a comment` repeat MetaDataX pack// `tick` ""quote"" 'q'
-`crlf
-line`
-, Logon charz `crlf
-line`
-    ,
-    // a // b
-    }
-")).
-Eval vm_compute in ("<<<M1615>>>" ++ check (runes_of_ascii "root packet Foo // " ++ [128512]%N ++ runes_of_ascii " emoji
-{ } options {
-    // a // b
-    tag // `tick` ""quote"" 'q'
-= //	t
-""""
-    ; u8x'1' = zchar[0  ] }
-MetaData
-    int {zchar[ 10]
-lengthOf	`` , i64 u8x`// not a comment` ,MetaDataX pack// `tick` ""quote"" 'q'
-`crlf
-line`
-, Logon charz `crlf
-line`
-    ,
-    // a // b
-    }
-")).
-Eval vm_compute in ("<<<M1476>>>" ++ check (runes_of_ascii "root packet Foo // " ++ [128512]%N ++ runes_of_ascii " emoji
-{ } options {
-    // a // b
-    tag // `tick` ""quote"" 'q'
-= //	t
-""""
-    ; u8x = 0 zchar[  ] }
-MetaData
-    int {zchar[ 10]
-lengthOf	`` , i64 u8x`// not a comment` ,MetaDataX pack// `tick` ""quote"" 'q'
-`crlf
-line`
-, Logon charz `crlf
-line`
-    ,
-    // a // b
-    }
-")).
-Eval vm_compute in ("<<<M1502>>>" ++ check (runes_of_ascii "root packet Foo // " ++ [128512]%N ++ runes_of_ascii " emoji
-{ } options {
-    // a // b
-    tag // `tick` ""quote"" 'q'
-= //	t
-""""
-    ; u8x = zchar[0  ] }
-MetaData
-    i32 {zchar[ 10]
-lengthOf	`` , i64 u8x`// not a comment` ,MetaDataX pack// `tick` ""quote"" 'q'
-`crlf
-line`
-, Logon charz `crlf
-line`
-    ,
-    // a // b
-    }
-")).
-Eval vm_compute in ("<<<M1484>>>" ++ check (runes_of_ascii "root packet Foo // " ++ [128512]%N ++ runes_of_ascii " emoji
-{ } options {
-    // a // b
-    tag // `tick` ""quote"" 'q'
-= //	t
-""""
-    ; u8x = zchar[0   }
-MetaData
-    int {zchar[ 10]
-lengthOf	`` , i64 u8x`// not a comment` ,MetaDataX pack// `tick` ""quote"" 'q'
-`crlf
-line`
-, Logon charz `crlf
-line`
-    ,
-    // a // b
-    }
-")).
-Eval vm_compute in ("<<<M1572>>>" ++ check (runes_of_ascii "root packet Foo // " ++ [128512]%N ++ runes_of_ascii " emoji
-{ } options {
-    // a // b
-    tag // `tick` ""quote"" 'q'
-= //	t
-""""
-    ; u8x = zchar[0  ] }
-MetaData
-    int {zchar[ 10]
-lengthOf	`` , i64 u8x`// not a comment` ,MetaDataX pack// `tick` ""quote"" 'q'
-@rightPad
-, Logon charz `crlf
-line`
-    ,
-    // a // b
-    }
-")).
-Eval vm_compute in ("<<<M341>>>" ++ check (runes_of_ascii "options { leftPad
-    = 1
-    ;	leftPad= char[]
-    // c
-    MetaDataX = false// @lengthOf(
-u =
-'\x00'roots =10
-} packet
-A { char[
-    // packet A { u8 x, }
-    10] o ,  match  a1 as T {
-// @lengthOf(
-//	t
-65535 :	Z9_ 0 : _x ,} ,	}
-    packet
-    Foo {repeat i64_ `two words`//
-, }
-")).
-Eval vm_compute in ("<<<M1602>>>" ++ check (runes_of_ascii "root packet Foo // " ++ [128512]%N ++ runes_of_ascii " emoji
-{ } options {
-    // a // b
-    tag // `tick` ""quote"" 'q'
-= //	t
-""""
-    ; u8x = zchar[0  ] }
-MetaData
-    int {zchar[ 10]
-lengthOf	`` , i64 u8x`// not a comment` ,MetaDataX pack// `tick` ""quote"" 'q'
-`crlf
-line`
-, Logon charz `crlf
-line`
-    ,")).
-Eval vm_compute in ("<<<M65>>>" ++ check (runes_of_ascii "packet
-    BodyLength { repeat char[
-    1 ]
-options1
-`it's`
-// c
-// " ++ [128512]%N ++ runes_of_ascii " emoji
-, x_y_z{
-    packetx @lengthOf(zchar ) `tab	here` , repeat _x a1 ,
-} , } packet roots{ // `tick` ""quote"" 'q'
-}	options  { Foo	=char[ 1] // " ++ [27880; 37322]%N ++ runes_of_ascii "
-;charz
-=
-1
-; Packet = ""`tick`"" }
-//x
-")).
-Eval vm_compute in ("<<<M464>>>" ++ check (runes_of_ascii "MetaData _x
-    { BodyLength string_ `crlf
-line`,
-//x
-//x
-i64
-    //
-    zchar , calculatedFrom MetaDataX ,float32 Pad `it's`
-,
-    } packet As{
-    repeat//	t
-metadata BodyLength
-`a\` ,	string
-Packet`two words`
-/// triple
-// `tick` ""quote"" 'q'
-, }")).
-Eval vm_compute in ("<<<M788>>>" ++ check (runes_of_ascii "  root
-packet i64_ {
-    @calculatedFrom( ""\n"") repeat// packet A { u8 x, }
-uint32	BodyLength ,@leftPad /// triple
-( ' ' // @lengthOf(
-) i32
-falsey@lengthOf( i64_  )//x
-`line1
-line2`  , @rightPad
-    ( ) repeat int64 int`" ++ [233]%N ++ runes_of_ascii "` ,
-    }
-// " ++ [27880; 37322]%N ++ runes_of_ascii "
-")).
-Eval vm_compute in ("<<<M4126>>>" ++ check (runes_of_ascii "MetaData Packet {
-}
-
-packet asx {
-    @lengthOf(asx)
-    falsey `crlf
-        line`,
-}
-
-packet x {
-    // @lengthOf(
-    rootA,
-    u32 options1 `say ""hi""`,
-    @tag(7)
-    // packet A { u8 x, }
-    msg_type @lengthOf(stringy),
-}")).
-Eval vm_compute in ("<<<M2356>>>" ++ check (runes_of_ascii "MetaData Packet { }packet	asx  { @lengthOf( asx) falsey`crlf
-line`
-,
-    }
-    packet x	{uint32// @lengthOf(
-rootA	,u32 options1 `say ""hi""` , @tag( 7
-    )// packet A { u8 x, }
-msg_type @lengthOf(
-stringy stringy	)	, }
-
-")).
-Eval vm_compute in ("<<<M870>>>" ++ check (runes_of_ascii "
-MetaData MetaDataX { stringy chars , Z9_ Foo ,
-}options
-{ }// " ++ [27880; 37322]%N ++ runes_of_ascii "
-packet x_y_z{ } packet
-stringy { uint64 packetx  , o , metadata // c
-MetaDataX  , repeat float32 len// `tick` ""quote"" 'q'
-, i64_
-,	}
-    options
-{ }")).
-Eval vm_compute in ("<<<M2363>>>" ++ check (runes_of_ascii "MetaData Packet { }packet	asx  { @lengthOf( asx) falsey`crlf
-line`
-,
-    }
-    packet x	{uint32// @lengthOf(
-rootA	,u32 options1 `say ""hi""` , @tag( 7
-    )// packet A { u8 x, }
-msg_type @lengthOf(
-stringy	as	, }
-
-")).
-Eval vm_compute in ("<<<M2307>>>" ++ check (runes_of_ascii "MetaData Packet { }packet	asx  { @lengthOf( asx) falsey`crlf
-line`
-,
-    }
-    packet x	{uint32// @lengthOf(
-rootA	u32, options1 `say ""hi""` , @tag( 7
-    )// packet A { u8 x, }
-msg_type @lengthOf(
-stringy	)	, }
-
-")).
-Eval vm_compute in ("<<<M2360>>>" ++ check (runes_of_ascii "MetaData Packet { }packet	asx  { @lengthOf( asx) falsey`crlf
-line`
-,
-    }
-    packet x	{uint32// @lengthOf(
-rootA	,u32 options1 `say ""hi""` , @tag( 7
-    )// packet A { u8 x, }
-msg_type @lengthOf(
-stringy		, }
-
-")).
-Eval vm_compute in ("<<<M2260>>>" ++ check (runes_of_ascii "MetaData Packet { }packet	asx  { @lengthOf( asx) `crlf
-line`
-,
-    }
-    packet x	{uint32// @lengthOf(
-rootA	,u32 options1 `say ""hi""` , @tag( 7
-    )// packet A { u8 x, }
-msg_type @lengthOf(
-stringy	)	, }
-
-")).
-Eval vm_compute in ("<<<M4399>>>" ++ check (runes_of_ascii "
-
-  packet
-	As	{u128 MetaDataX ,
-    char[
-
-3]
-    falsey
-    ,
-
-}
-
-options { falsey 
-    /// triple
-	=
-""it's"" 
-;
-    }
-
-    MetaData  a1  {  u8x
-A ,
-    matchKey
-_x
-
-    `" ++ [28040; 24687; 31867; 22411]%N ++ runes_of_ascii "`,
-
-string T
-    ,	} ")).
-Eval vm_compute in ("<<<M895>>>" ++ check (runes_of_ascii "
-packet zchar {	@rightPad (
-) repeat char[]leftPad	, @calculatedFrom(""{,}"" )
-    u ,
-i64_ @calculatedFrom( ""// no comment"" ),
-    // c
-    }
-// packet A { u8 x, }
-// " ++ [128512]%N ++ runes_of_ascii " emoji
-packet lengthOf{ }
-")).
-Eval vm_compute in ("<<<M4227>>>" ++ check (runes_of_ascii "
-options	{ 
-  // trailing space 
-		A =
-' ';
-calculatedFrom
-        // c
-
-  // a // b
-
-  =""a\""b""
-    ;
-    msg_type= char[
-
-4294967296]
-    ; 
-    //
-  rootA
-	='\x00'msg_type
-
-=
-false }
-")).
-Eval vm_compute in ("<<<M3879>>>" ++ check (runes_of_ascii "  root packet  Packet  // packet A { u8 x, }
-	{
-
-leftPad
-
-    As,
-	char[]
-string_
-, }
-    MetaData
-    x
-{  a1 u128
-`u8 x,` , 
-        // a // b
-      // packet A { u8 x, }
-	}")).
-Eval vm_compute in ("<<<M3651>>>" ++ check (runes_of_ascii "// @lengthOf(
-MetaData u {
-    char[] float,
-    u8 leftPad `
-    `,
-    // a // b
-    // a // b
-    metadata string_,
-    char[] Header,
-    zchar[0123456789] a1 `
-    `,
-}")).
-Eval vm_compute in ("<<<M4005>>>" ++ check (runes_of_ascii "packet f32a {
-    @calculatedFrom(""\" ++ [233]%N ++ runes_of_ascii """)
-    @calculatedFrom(""" ++ [128512]%N ++ runes_of_ascii """)
-    @lengthOf(int)
-    u8x @calculatedFrom(""\" ++ [233]%N ++ runes_of_ascii """),
-    float32 leftPad `doc`,
-    crc MetaDataX `" ++ [233]%N ++ runes_of_ascii "`,
-}")).
-Eval vm_compute in ("<<<M4342>>>" ++ check (runes_of_ascii "
-packet
-i8i8//x
-    	{
-
-    int16 // trailing space 
-
-stringy // " ++ [128512]%N ++ runes_of_ascii " emoji
-@calculatedFrom(
-""// no comment""
-
-    ) ,
-    }
-
-    packet _x
-    {
-
-    } ")).
-Eval vm_compute in ("<<<M422>>>" ++ check (runes_of_ascii "options { chars = ""abc"" ;}
-    packet string_
-{uint8x
-x_y_z ,string
-Header`
-` , } packet pack// a // b
-{ Z9_
-@lengthOf( chars
-    ) /// triple
-`" ++ [233]%N ++ runes_of_ascii "` ,}
-")).
-Eval vm_compute in ("<<<M1373>>>" ++ check (runes_of_ascii "packet
-As { char[
-0123456789]
-    repeatCount
-    // `tick` ""quote"" 'q'
-    , u32 _x `// not a comment` , @tag( 3 )repeat i64 len `say ""hi""`,  }
-")).
-Eval vm_compute in ("<<<M4513>>>" ++ check (runes_of_ascii "packet	A  {	match
-k as n{	[ 
-1
-, 
-22
-	,
-
-007 
-,
-
-    4,	5,
-
-66
-    ,
-	7
-    ,
-	8
-
-,
-	9
-	, 
-10	, 11
-
-    ,
-
-12  ] :
-	B 2
-
-    : 
-C },  }")).
-Eval vm_compute in ("<<<M1658>>>" ++ check (runes_of_ascii "root packet /// triple
-rootA {	i32
-MetaDataX@calculatedFrom( ""CRC32"" ""CRC32"" ) `line1
-line2` , } MetaData BodyLength {
-u8
-rootA, } // c")).
-Eval vm_compute in ("<<<M3390>>>" ++ check (runes_of_ascii "// top
-MetaData // c0
-_x // c1
-{ // c2
-zchar[ // c3
-4294967296 // c4
-] // c5
-lengthOf // c6
-`// not a comment` // c7
-, // c8
-} // c9
-")).
-Eval vm_compute in ("<<<M1693>>>" ++ check (runes_of_ascii "root packet /// triple
-rootA {	i32
-MetaDataX@calculatedFrom( ""CRC32"" ) `line1
-line2` , } MetaData BodyLength { {
-u8
-rootA, } // c")).
-Eval vm_compute in ("<<<M1674>>>" ++ check (runes_of_ascii "root packet /// triple
-rootA {	i32
-MetaDataX@calculatedFrom( ""CRC32"" ) `line1
-line2` } , MetaData BodyLength {
-u8
-rootA, } // c")).
-Eval vm_compute in ("<<<M3983>>>" ++ check (runes_of_ascii "packet A {
-    match k as n {
-        [
-            1, 22, ""c c"", 4, 5,
-            ""f""
-        ] : B,
-        2 : C,
+Eval vm_compute in ("<<<M2031>>>" ++ check (runes_of_ascii "// " ++ [27880; 37322]%N ++ runes_of_ascii "
+packet tag {
+    repeat i64_ {
+        zchar[007] Logon @calculatedFrom(""packet""),
+        repeat char[] leftPad `a\`,
+        zchar[3] float,
     },
-}")).
-Eval vm_compute in ("<<<M4420>>>" ++ check (runes_of_ascii "  packet B
-{
-u8 
-a,
-}  root packet
-	P{ 
-u8 K
-
-, match  K  as  Body
-	{
-
-1
-: B
-,
-    }
-    , 
-u16 L @lengthOf(
-
-Body 
-),
 }
 
-")).
-Eval vm_compute in ("<<<M1657>>>" ++ check (runes_of_ascii "root packet /// triple
-rootA {	i32
-MetaDataX@calculatedFrom(  ) `line1
-line2` , } MetaData BodyLength {
-u8
-rootA, } // c")).
-Eval vm_compute in ("<<<M1647>>>" ++ check (runes_of_ascii "root packet /// triple
-rootA {	i32
-@calculatedFrom( ""CRC32"" ) `line1
-line2` , } MetaData BodyLength {
-u8
-rootA, } // c")).
-Eval vm_compute in ("<<<M1891>>>" ++ check (runes_of_ascii "packet
-    Pad // a // b
-{ " ++ [127]%N ++ runes_of_ascii "i8i8 @calculatedFrom( ""a	b"") `u8 x,` ,
-} options{ float// " ++ [128512]%N ++ runes_of_ascii " emoji
-= f64 i64_
-=//	t
-00 }
-")).
-Eval vm_compute in ("<<<M1857>>>" ++ check (runes_of_ascii "packet
-    Pad // a // b
-{ i8i8 @calculatedFrom( ""a	b"") `u8 x,` ,
-} options{ float// " ++ [128512]%N ++ runes_of_ascii " emoji
-= f64 =
-i64_//	t
-00 }
-")).
-Eval vm_compute in ("<<<M624>>>" ++ check (runes_of_ascii "packet Packet { uint8 options1	`a\` ,@rightPad
-    (
-    '0') u16 // packet A { u8 x, }
-x_y_z
-    `crlf
-line` ,
-}
-")).
-Eval vm_compute in ("<<<M4485>>>" ++ check (runes_of_ascii "packet
-Logon  { @tag(
-    42	)
-
-// c
-  	@rightPad ( ' ' ) @leftPad()
-
-repeat
-    trueish
-
-{  string	T	,
-
+packet pack {
+    repeat i8 len `
+    `,
 }
 
+root packet uint8x {
+    // packet A { u8 x, }
+    @leftPad()
+    @calculatedFrom(""a\\"")
+    @rightPad('\x00')
+    repeat char[0] T,
+}//	t")).
+Eval vm_compute in ("<<<M1474>>>" ++ check (runes_of_ascii "options {
+    LittleEndian = true;
+}
+packet Logon {
+    u8 x,
+}
+packet Logout {
+    u16 reason,
+}
+root packet Frame {
+    i32 Kind,
+    i32 Kind2,
+    match Kind as Body {
+        1 : Logon,
+        [2, 3, 4] : Logout,
+        100 : Logon,
+    },
+    match Kind2 as Trailer {
+        0 : Logout,
+    },
+}
+")).
+Eval vm_compute in ("<<<M1479>>>" ++ check (runes_of_ascii "options
+
+{ LittleEndian= 
+true;
+}
+	packet
+	Logon
+	{ 
+u8 x , 
+string  user ,}
+	packet
+	Logout	{
+
+    u16	reason,
+
+    } packet Empty  {
+	}  root packet
+
+    Frame  {
+
+u16  MsgType
+,@lengthOf(Body ) 
+u8 BodyLen
 ,
 
-}
-")).
-Eval vm_compute in ("<<<M3010>>>" ++ check (runes_of_ascii "packet A {
-    u16 len @lengthOf(body) `a
-b`,
-    u32 crc @calculatedFrom(""CRC32"") `a
-b`,
-    string body,
-}")).
-Eval vm_compute in ("<<<M3976>>>" ++ check (runes_of_ascii "
+u8	flags,
 
-  options {
-matchKey =
+    Logon
+Body
 
-0
+,
+u32
+trailer ,
 
-    BodyLength=uint64 
-; pack
-
-=
-""1"" ;
-
-f32a
-
-=
-    i64 
-Foo
-	= 
-""a	b"" 
 } ")).
-Eval vm_compute in ("<<<M3376>>>" ++ check (runes_of_ascii "packet calculatedFrom { @tag( 4294967296 ) u msg_type , char[ 3 ] crc @lengthOf( len ) `u8 x,` , }
-// c
-")).
-Eval vm_compute in ("<<<M3357>>>" ++ check (runes_of_ascii "packet calculatedFrom { @tag( 4294967296 ) u msg_type , char[ // c
-3 ] crc @lengthOf( len ) `u8 x,` , }")).
-Eval vm_compute in ("<<<M4425>>>" ++ check (runes_of_ascii "packet
-
-    lengthOf
-	{
-
-}
-root packet  i64_ 
-{ char[]
-
-BodyLength  @lengthOf(
-
-Header
-	)	`doc` 
-,}
-")).
-Eval vm_compute in ("<<<M1691>>>" ++ check (runes_of_ascii "root packet /// triple
-rootA {	i32
-MetaDataX@calculatedFrom( ""CRC32"" ) `line1
-line2` , } MetaData")).
-Eval vm_compute in ("<<<M4225>>>" ++ check (runes_of_ascii "packet
-	A
+Eval vm_compute in ("<<<M352>>>" ++ check (runes_of_ascii "
+root packet
+    // `tick` ""quote"" 'q'
+    BodyLength { metadata
+/// triple
+// `tick` ""quote"" 'q'
 {
-    match k as
-n {  [  ""a""
+calculatedFrom,zchar[ 007 ] msg_type@lengthOf( int )
+`say ""hi""` , chars uint8x , string
+As @calculatedFrom( ""a	b""
+)`
+` ,/// triple
+} ,  }
+")).
+Eval vm_compute in ("<<<M529>>>" ++ check (runes_of_ascii "options
+{
+matchKey = 42/// triple
+x='0' ;
+// packet A { u8 x, }
+//
+charz
+=
+// packet A { u8 x, }
+// trailing space 
+true  ; } MetaData BodyLength
+{
+uint8
+pack,zchar[ 1]float ,  float32 x_y_z `` float32 u32
+_x,i16 body  , }
+")).
+Eval vm_compute in ("<<<M522>>>" ++ check (runes_of_ascii "options
+{
+matchKey = 42/// triple
+x='0' ;
+// packet A { u8 x, }
+//
+charz
+=
+// packet A { u8 x, }
+// trailing space 
+true  ; } MetaData BodyLength
+{
+uint8
+pack,zchar[ 1]float ,  float32 x_y_z `` `` ,u32
+_x,i16 body  , }
+")).
+Eval vm_compute in ("<<<M478>>>" ++ check (runes_of_ascii "options
+{
+matchKey = 42/// triple
+x='0' ;
+// packet A { u8 x, }
+//
+charz
+=
+// packet A { u8 x, }
+// trailing space 
+true  ; } MetaData BodyLength
+{
+uint8
+,pack zchar[ 1]float ,  float32 x_y_z `` ,u32
+_x,i16 body  , }
+")).
+Eval vm_compute in ("<<<M453>>>" ++ check (runes_of_ascii "options
+{
+matchKey = 42/// triple
+x='0' ;
+// packet A { u8 x, }
+//
+charz
+=
+// packet A { u8 x, }
+// trailing space 
+true  ; MetaData } BodyLength
+{
+uint8
+pack,zchar[ 1]float ,  float32 x_y_z `` ,u32
+_x,i16 body  , }
+")).
+Eval vm_compute in ("<<<M506>>>" ++ check (runes_of_ascii "options
+{
+matchKey = 42/// triple
+x='0' ;
+// packet A { u8 x, }
+//
+charz
+=
+// packet A { u8 x, }
+// trailing space 
+true  ; } MetaData BodyLength
+{
+uint8
+pack,zchar[ 1]float   float32 x_y_z `` ,u32
+_x,i16 body  , }
+")).
+Eval vm_compute in ("<<<M1974>>>" ++ check (runes_of_ascii "packet pack {
+    @calculatedFrom(""CRC32"")
+    i8i8 {
+        MetaDataX @lengthOf(x),
+        char As @lengthOf(len),
+        // " ++ [128512]%N ++ runes_of_ascii " emoji
+        //x
+        chars metadata `say ""hi""`,
+        char[0] int,
+    },
+}")).
+Eval vm_compute in ("<<<M1>>>" ++ check (runes_of_ascii "// c
+options {
+    lengthOf = false Logon =
+    false ;
+} MetaData lengthOf
+{ // " ++ [128512]%N ++ runes_of_ascii " emoji
+float32 i8i8, }
+root // `tick` ""quote"" 'q'
+packet roots
+{  zchar[
+7	] f32a
+    // trailing space 
+    , }
+")).
+Eval vm_compute in ("<<<M692>>>" ++ check (runes_of_ascii "// c
+packet i64_ i64_ {	char[] calculatedFrom , } packet
+trueish  {@calculatedFrom(
+""a\\"" ) o { i32 falsey@lengthOf( uint8x ),
+} , } // `tick` ""quote"" 'q'
+options {// c
+Z9_ = ' '//
+}
+")).
+Eval vm_compute in ("<<<M683>>>" ++ check (runes_of_ascii "// c
+packet i64_ {	char[] calculatedFrom , } packet
+trueish  {@calculatedFrom(
+""a\\"" ) o { i32 @lengthOf(falsey uint8x ),
+} , } // `tick` ""quote"" 'q'
+options {// c
+Z9_ = ' '//
+}
+")).
+Eval vm_compute in ("<<<M673>>>" ++ check (runes_of_ascii "// c
+ i64_ {	char[] calculatedFrom , } packet
+trueish  {@calculatedFrom(
+""a\\"" ) o { i32 falsey@lengthOf( uint8x ),
+} , } // `tick` ""quote"" 'q'
+options {// c
+Z9_ = ' '//
+}
+")).
+Eval vm_compute in ("<<<M247>>>" ++ check (runes_of_ascii "packet
+Pad { } packet// packet A { u8 x, }
+len // a // b
+{ string u128 , } root packet o {
+@tag( 7
+) char[] msg_type @calculatedFrom( ""// no comment""
+)
+    ,}
+")).
+Eval vm_compute in ("<<<M1352>>>" ++ check (runes_of_ascii "packet
+    B
+{u8 a
+    ,  }	root packet
 
-    ,  ""bb""
-,
+    P{ u8
 
-""c c"",
-""d"" ]
-: B	2: C
+    K
 
-    }
+    ,
+	u64
+
+    L@lengthOf(	Body
+)  ,  match 
+K
+	as
+    Body {	1 
+:
+B 
+, 
+},}
+")).
+Eval vm_compute in ("<<<M1829>>>" ++ check (runes_of_ascii "MetaData f32a {
+    uint8 repeatCount,
+    x_y_z i8i8,
+    f32 msg_type,
+    charz lengthOf `tab	here`,
+    char[7] chars,
+    float x,
+}")).
+Eval vm_compute in ("<<<M1349>>>" ++ check (runes_of_ascii "
+packet	B
+{
+	u8 a	, 
+}
+
+    root
+
+packet P {  u8  K , 
+u8
+    L @lengthOf(
+Body)
+
+,	match
+K as Body
+{  1
+
+    :B,  }	,
+	} ")).
+Eval vm_compute in ("<<<M607>>>" ++ check (runes_of_ascii "MetaData
+    // trailing space 
+    matchKey
+{ u64 chars chars // a // b
+,char[] lengthOf `// not a comment`
+    , //	t
+}")).
+Eval vm_compute in ("<<<M597>>>" ++ check (runes_of_ascii "MetaData
+    // trailing space 
+    matchKey
+{ { u64 chars // a // b
+,char[] lengthOf `// not a comment`
+    , //	t
+}")).
+Eval vm_compute in ("<<<M24>>>" ++ check (runes_of_ascii "packet _x { int32 u , @tag(3)char[ 255]
+    // @lengthOf(
+    A
+    @calculatedFrom( ""x y""
+    )
+`crlf
+line`,
+    }")).
+Eval vm_compute in ("<<<M604>>>" ++ check (runes_of_ascii "MetaData
+    // trailing space 
+    matchKey
+{ ; chars // a // b
+,char[] lengthOf `// not a comment`
+    , //	t
+}")).
+Eval vm_compute in ("<<<M1523>>>" ++ check (runes_of_ascii "packet Logon {
+	@tag(	// c
+	42	)
+
+@rightPad
+	( 
+' '
+) @leftPad
+	(
+	)
+repeat  trueish 
+{ string
+T
+, }
 , }
 ")).
-Eval vm_compute in ("<<<M3233>>>" ++ check (runes_of_ascii "packet Logon { @tag( 42 ) @rightPad ( ' '
-// c
-) @leftPad ( ) repeat trueish { string T , } , }")).
-Eval vm_compute in ("<<<M1463>>>" ++ check (runes_of_ascii "root packet Foo // " ++ [128512]%N ++ runes_of_ascii " emoji
-{ } options {
-    // a // b
-    tag // `tick` ""quote"" 'q'
-= //	t
-""""")).
-Eval vm_compute in ("<<<M4323>>>" ++ check (runes_of_ascii "
-
-  options
-	{FixedStringPadFromLeft
-= 
-true
-    ; } 
-root  packet  P
+Eval vm_compute in ("<<<M1846>>>" ++ check (runes_of_ascii "
+packet
+    B
 {
-char[
-	4
-]
-z,
-	}
+    u8
 
-")).
-Eval vm_compute in ("<<<M2023>>>" ++ check (runes_of_ascii "root
-packet crc
-    { f32a @calculatedFrom( """ ++ [233]%N ++ runes_of_ascii "t" ++ [233]%N ++ runes_of_ascii """ )
-    `say ""hi""`, lengthOf `` ,  char[")).
-Eval vm_compute in ("<<<M2036>>>" ++ check (runes_of_ascii "root
-packet crc
-    { f32a @calculatedFrom( """ ++ [233]%N ++ runes_of_ascii "t" ++ [233]%N ++ runes_of_ascii """ )
-    `say ""hi""`, \ lengthOf `` ,  }")).
-Eval vm_compute in ("<<<M2914>>>" ++ check (runes_of_ascii "packet A {
+a  , string
+    s
+,} root packet
+P
+
+{
+u16 L
+@lengthOf(  B  )
+	,B
+    ,u8 t
+
+,
+
+} ")).
+Eval vm_compute in ("<<<M1256>>>" ++ check (runes_of_ascii "packet calculatedFrom
+// c
+{ @tag( 4294967296 ) u msg_type , char[ 3 ] crc @lengthOf( len ) `u8 x,` , }")).
+Eval vm_compute in ("<<<M1288>>>" ++ check (runes_of_ascii "packet calculatedFrom { @tag( 4294967296 ) u msg_type , char[ 3 ] crc @lengthOf( len ) `u8 x,` ,
+// c
+}")).
+Eval vm_compute in ("<<<M1632>>>" ++ check (runes_of_ascii "
+packet A{
+
+match
+
+k
+
+    as 
+n
+
+    {
+	[
+1	, 22
+, 007,
+4,5 ,	66, 7 , 8
+	]
+    :	B
+
+2
+:C},
+
+}")).
+Eval vm_compute in ("<<<M1134>>>" ++ check (runes_of_ascii "packet Logon { // c
+@tag( 42 ) @rightPad ( ' ' ) @leftPad ( ) repeat trueish { string T , } , }")).
+Eval vm_compute in ("<<<M1166>>>" ++ check (runes_of_ascii "packet Logon { @tag( 42 ) @rightPad ( ' ' ) @leftPad ( ) repeat trueish { string T , // c
+} , }")).
+Eval vm_compute in ("<<<M841>>>" ++ check (runes_of_ascii "packet A {
   match k as n {
-    [""a"", ""bb"", ""c c"", ""d"", ""e"", ""f""] : B
+    [""a"", ""bb"", ""c c"", ""d"", ""e"", ""f"", ""g""] : B
     2 : C
   },
 }")).
-Eval vm_compute in ("<<<M4161>>>" ++ check (runes_of_ascii "packet A {
+Eval vm_compute in ("<<<M1953>>>" ++ check (runes_of_ascii "packet A {
     match k as n {
-        [1, 22, 007, 4, 5] : B,
+        [""a"", ""bb"", 007, ""d""] : B,
         2 : C,
     },
 }")).
-Eval vm_compute in ("<<<M4444>>>" ++ check (runes_of_ascii "root packet rootA {
-    i32 MetaDataX @calculatedFrom(""CRC32"") `line1
-    line2`,
+Eval vm_compute in ("<<<M2024>>>" ++ check (runes_of_ascii "root packet x_y_z {
+    // a // b
+    // packet A { u8 x, }
+    repeat falsey `" ++ [233]%N ++ runes_of_ascii "`,
 }")).
-Eval vm_compute in ("<<<M3300>>>" ++ check (runes_of_ascii "packet o { @tag( // c
-42 ) repeat x { char[ 0123456789 ] i64_ , } , } options { }")).
-Eval vm_compute in ("<<<M3480>>>" ++ check (runes_of_ascii "packet orderItem {
-    u8 a,
-}
-root packet newOrder {
-    orderItem,
-    u8 x,
-}
-")).
-Eval vm_compute in ("<<<M3001>>>" ++ check (runes_of_ascii "packet A { Inner { match k as n { [1,22,007,4,5,66,7,8,9,10,11,12] : B, }, }, }")).
-Eval vm_compute in ("<<<M4387>>>" ++ check (runes_of_ascii "root packet crc {
-    f32a @calculatedFrom(""" ++ [233]%N ++ runes_of_ascii "t" ++ [233]%N ++ runes_of_ascii """) `say ""hi""`,
-    lengthOf,
-}")).
-Eval vm_compute in ("<<<M1302>>>" ++ check (runes_of_ascii "MetaData f32a {
-    int64 rootA
-`tab	here`, }packet
-    msg_type{
-} // " ++ [27880; 37322]%N)).
-Eval vm_compute in ("<<<M2892>>>" ++ check (runes_of_ascii "packet A {
-  match k as n {
-    [""a"", 22, ""c c"", 4] : B
-    2 : C
-  },
-}")).
-Eval vm_compute in ("<<<M2894>>>" ++ check (runes_of_ascii "packet A {
-  match k as n {
-    [1, 22, ""c c"", 4] : B
-    2 : C
-  },
-}")).
-Eval vm_compute in ("<<<M2211>>>" ++ check (runes_of_ascii "root
-    // `tick` ""quote"" 'q'
-    packet na" ++ [239]%N ++ runes_of_ascii "ve { trueish Packet , }
-")).
-Eval vm_compute in ("<<<M3172>>>" ++ check (runes_of_ascii "packet A { match k as n { [ // a
- 1 // b
- , // c
- 2 ] // d
- : B }, }")).
-Eval vm_compute in ("<<<M2210>>>" ++ check (runes_of_ascii "root
-    // `tick` ""quote"" 'q'
-    packet " ++ [21517; 23383]%N ++ runes_of_ascii " { trueish Packet , }
-")).
-Eval vm_compute in ("<<<M1944>>>" ++ check (runes_of_ascii "
-packet	As { @calculatedFrom(//@lengthOfx
-""{,}""	)lengthOf , } 	 ")).
-Eval vm_compute in ("<<<M2870>>>" ++ check (runes_of_ascii "packet A {
-  match k as n {
-    [""a"", 22] : B
-    2 : C
-  },
-}")).
-Eval vm_compute in ("<<<M133>>>" ++ check (runes_of_ascii "packet string_ // `tick` ""quote"" 'q'
-{ u
-//
-// " ++ [128512]%N ++ runes_of_ascii " emoji
-, }
-")).
-Eval vm_compute in ("<<<M4205>>>" ++ check (runes_of_ascii "root packet P {
-    hdr {
-        u8 a,
-    },
-    u8 x,
-}")).
-Eval vm_compute in ("<<<M1946>>>" ++ check (runes_of_ascii "
-packet	As { @calculatedFrom(//x
-""{,}""	')lengthOf , } 	 ")).
-Eval vm_compute in ("<<<M1930>>>" ++ check (runes_of_ascii "
-packet	As { @calculatedFrom(//x
-""{,}""	)lengthOf  } 	 ")).
-Eval vm_compute in ("<<<M529>>>" ++ check (runes_of_ascii "options{
-BodyLength =	""" ++ [128512]%N ++ runes_of_ascii """// `tick` ""quote"" 'q'
-; }
-")).
-Eval vm_compute in ("<<<M399>>>" ++ check (runes_of_ascii "
-packet Pad
-{ uint8 rootA`` ,
-} packet Foo  { }
-")).
-Eval vm_compute in ("<<<M2418>>>" ++ check (runes_of_ascii "MetaData A
-)
-i64
-chars	, } // `tick` ""quote"" 'q'")).
-Eval vm_compute in ("<<<M3736>>>" ++ check (runes_of_ascii "packet i8i8 {
-}
-
-packet asx {
-    uint8 pack,
-}")).
-Eval vm_compute in ("<<<M1749>>>" ++ check (runes_of_ascii "options { options} {  } // `tick` ""quote"" 'q'")).
-Eval vm_compute in ("<<<M340>>>" ++ check (runes_of_ascii "packet int
-    { }
-    packet u128 {
-    }
-")).
-Eval vm_compute in ("<<<M2785>>>" ++ check (runes_of_ascii "i64_ char = , packet [ ] @lengthOf( uint64")).
-Eval vm_compute in ("<<<M1160>>>" ++ check (runes_of_ascii "packet tag
-//x
-// " ++ [128512]%N ++ runes_of_ascii " emoji
-{ }
-// a // b
-")).
-Eval vm_compute in ("<<<M3200>>>" ++ check (runes_of_ascii "MetaData zchar { zchar[ 3 ] // c
-Pad , }")).
-Eval vm_compute in ("<<<M412>>>" ++ check (runes_of_ascii "MetaData
+Eval vm_compute in ("<<<M1217>>>" ++ check (runes_of_ascii "packet o { @tag( 42
 // c
-// @lengthOf(
-T {
-    }
-")).
-Eval vm_compute in ("<<<M348>>>" ++ check (runes_of_ascii "packet
-    A
-{} options {
-T	=
-'0' }
-")).
-Eval vm_compute in ("<<<M3020>>>" ++ check (runes_of_ascii "packet A {
-    u8 x `a
-    b
-  c`,
-}")).
-Eval vm_compute in ("<<<M2799>>>" ++ check (runes_of_ascii "Y'; XMxS`r%e+3e8IXpIp]:H8_+-WZ@@1,")).
-Eval vm_compute in ("<<<M2829>>>" ++ check ([127; 65533; 65533; 65533; 65533]%N ++ runes_of_ascii "Cx" ++ [65533]%N ++ runes_of_ascii "Z" ++ [20; 28; 65533; 65533]%N ++ runes_of_ascii "b" ++ [65533; 65533; 65533; 65533]%N ++ runes_of_ascii "g" ++ [65533]%N ++ runes_of_ascii "`P" ++ [3; 65533]%N ++ runes_of_ascii "j" ++ [65533; 65533]%N ++ runes_of_ascii "&" ++ [26; 65533]%N ++ runes_of_ascii "z" ++ [65533]%N)).
-Eval vm_compute in ("<<<M1289>>>" ++ check (runes_of_ascii "
-packet //x
-Header // " ++ [27880; 37322]%N ++ runes_of_ascii "
-{	}")).
-Eval vm_compute in ("<<<M3772>>>" ++ check (runes_of_ascii "
-// c" ++ [11]%N ++ runes_of_ascii "
-    packet A
+) repeat x { char[ 0123456789 ] i64_ , } , } options { }")).
+Eval vm_compute in ("<<<M1690>>>" ++ check (runes_of_ascii "
+root packet P
+    {  u8	s_u8 ,
+repeat 
+u8
 
-    {}
-")).
-Eval vm_compute in ("<<<M2708>>>" ++ check (runes_of_ascii "M#T%6 >pw-dCYhy71MjW^j+tv~#}")).
-Eval vm_compute in ("<<<M3969>>>" ++ check (runes_of_ascii "options {
-    u8x = 3
-}// c")).
-Eval vm_compute in ("<<<M4296>>>" ++ check (runes_of_ascii "
-packet  repeatCount { }
-")).
-Eval vm_compute in ("<<<M550>>>" ++ check (runes_of_ascii "//	t
-packet
-f32a
-    { }")).
-Eval vm_compute in ("<<<M3380>>>" ++ check (runes_of_ascii "// c
-packet lengthOf { }")).
-Eval vm_compute in ("<<<M4246>>>" ++ check (runes_of_ascii "MetaData M {
-    x y,
-}")).
-Eval vm_compute in ("<<<M1607>>>" ++ check (runes_of_ascii "root packet Foo // " ++ [65533; 65533]%N)).
-Eval vm_compute in ("<<<M2642>>>" ++ check (runes_of_ascii "MetaData M { u8 x, }")).
-Eval vm_compute in ("<<<M3127>>>" ++ check (runes_of_ascii "// c 	
-packet A {
-}")).
-Eval vm_compute in ("<<<M3062>>>" ++ check (runes_of_ascii "// c 
-packet A {
-}")).
-Eval vm_compute in ("<<<M3144>>>" ++ check (runes_of_ascii "packet A {
-}// c x")).
-Eval vm_compute in ("<<<M3099>>>" ++ check (runes_of_ascii "packet A {
-}// c" ++ [8233]%N)).
-Eval vm_compute in ("<<<M1188>>>" ++ check (runes_of_ascii "options {
+    r_u8
+
+,
+
+u16  b_len ,
+
     }")).
-Eval vm_compute in ("<<<M755>>>" ++ check (runes_of_ascii "
- // " ++ [128512]%N ++ runes_of_ascii " emoji")).
-Eval vm_compute in ("<<<M861>>>" ++ check (runes_of_ascii "// a // b
+Eval vm_compute in ("<<<M1620>>>" ++ check (runes_of_ascii "packet A {
+    match k as n {
+        [""a"", ""bb""] : B,
+        2 : C,
+    },
+}")).
+Eval vm_compute in ("<<<M1646>>>" ++ check (runes_of_ascii "options {
+}
+
+packet repeatCount {
+    // `tick` ""quote"" 'q'
+}
+
+options {
+}")).
+Eval vm_compute in ("<<<M1371>>>" ++ check (runes_of_ascii "
+root
+	packet
+	P 
+{ u16  a, u32
+Sum@calculatedFrom( ""CRC32""
+    ) 
+,  }")).
+Eval vm_compute in ("<<<M799>>>" ++ check (runes_of_ascii "packet A {
+  match k as n {
+    [1, 22, 007, 4] : B,
+    2 : C
+  },
+}")).
+Eval vm_compute in ("<<<M771>>>" ++ check (runes_of_ascii """a\\"" false i32 00 match @calculatedFrom( int8 f64 packet char[]")).
+Eval vm_compute in ("<<<M366>>>" ++ check (runes_of_ascii "
+packet Logon{ match
+    float as trueish { 3 : int } , }
+
 ")).
-Eval vm_compute in ("<<<M2752>>>" ++ check (runes_of_ascii "nz:c/H>Q")).
-Eval vm_compute in ("<<<M2460>>>" ++ check (runes_of_ascii "repeat")).
-Eval vm_compute in ("<<<M2511>>>" ++ check (runes_of_ascii """ab""")).
-Eval vm_compute in ("<<<M2441>>>" ++ check (runes_of_ascii "uint")).
-Eval vm_compute in ("<<<M2496>>>" ++ check (runes_of_ascii "/ /")).
-Eval vm_compute in ("<<<M2493>>>" ++ check (runes_of_ascii "@@")).
-Eval vm_compute in ("<<<M2678>>>" ++ check (runes_of_ascii " ")).
+Eval vm_compute in ("<<<M1069>>>" ++ check (runes_of_ascii "packet A { match k as n { 1 : B // a // b 2 : C }, }")).
+Eval vm_compute in ("<<<M967>>>" ++ check (runes_of_ascii "options {
+    a = ""x\
+y"";
+    b = ""x\
+y""
+}")).
+Eval vm_compute in ("<<<M1109>>>" ++ check (runes_of_ascii "MetaData zchar {
+// c
+zchar[ 3 ] Pad , }")).
+Eval vm_compute in ("<<<M420>>>" ++ check (runes_of_ascii "options
+{
+matchKey = 42/// triple
+x")).
+Eval vm_compute in ("<<<M1062>>>" ++ check (runes_of_ascii "packet A {
+ u8 x `d x`, // c x
+}")).
+Eval vm_compute in ("<<<M1012>>>" ++ check (runes_of_ascii "packet A {
+ u8 x `d" ++ [8232]%N ++ runes_of_ascii "`, // c" ++ [8232]%N ++ runes_of_ascii "
+}")).
+Eval vm_compute in ("<<<M288>>>" ++ check (runes_of_ascii "packet
+repeatCount {
+    }")).
+Eval vm_compute in ("<<<M1297>>>" ++ check (runes_of_ascii "packet
+// c
+lengthOf { }")).
+Eval vm_compute in ("<<<M131>>>" ++ check (runes_of_ascii "  packet float { }
+")).
+Eval vm_compute in ("<<<M1021>>>" ++ check (runes_of_ascii "// c" ++ [8239]%N ++ runes_of_ascii "
+packet A {
+}")).
+Eval vm_compute in ("<<<M1018>>>" ++ check (runes_of_ascii "packet A {
+}// c" ++ [8239]%N)).
+Eval vm_compute in ("<<<M400>>>" ++ check (runes_of_ascii "options
+{")).
+Eval vm_compute in ("<<<M1054>>>" ++ check (runes_of_ascii "// c" ++ [6158]%N)).
